@@ -65,6 +65,8 @@ var ghost struct {
 
 	ioFmt int // content identity of the string the latest fmt.Sprintf call returned (C10 WithSkip)
 
+	split int // 1 once printFirstLineOfMsg has assigned PrintCtx.restLines / eol for the record being printed (C09)
+
 	warns int // number of diagnostic Warn calls issued by printOut after a failed destination (C13)
 }
 
@@ -197,7 +199,7 @@ func specInterrupts() bool {
 //@   requires [INV-dw] forall(k, 0, len(specDest(s, lvl)), !isnil(specDest(s, lvl)[k]) && !typeis(specDest(s, lvl)[k], LWs) && implies(typeis(specDest(s, lvl)[k], *logwr), dyn(specDest(s, lvl)[k], *logwr) != nil && !typeis(dyn(specDest(s, lvl)[k], *logwr).Writer, *logwr) && !typeis(dyn(specDest(s, lvl)[k], *logwr).Writer, LWs)))
 //@   requires [INV-dw.warn] forall(k, 0, len(specDest(s, WarnLevel)), !isnil(specDest(s, WarnLevel)[k]) && !typeis(specDest(s, WarnLevel)[k], LWs) && implies(typeis(specDest(s, WarnLevel)[k], *logwr), dyn(specDest(s, WarnLevel)[k], *logwr) != nil && !typeis(dyn(specDest(s, WarnLevel)[k], *logwr).Writer, *logwr) && !typeis(dyn(specDest(s, WarnLevel)[k], *logwr).Writer, LWs)))
 //@   assigns everything
-//@   keeps PrintCtx.off, PrintCtx.lvl
+//@   keeps PrintCtx.off, PrintCtx.lvl, PrintCtx.prefix, PrintCtx.inGroupedMode, PrintCtx.noQuoted, PrintCtx.dedupeAttrs
 //@   at call (*Entry).print assert [C14.C15.thru] callee.s == s && callee.stackFrame == stackFrame && callee.lvl == lvl && callee.timestamp == timestamp && callee.msg == msg && callee.kvps == attrs
 
 //@ func (*Entry).WriteInternal
@@ -206,7 +208,7 @@ func specInterrupts() bool {
 //@   requires [INV-dw] forall(k, 0, len(specDest(s, lvl)), !isnil(specDest(s, lvl)[k]) && !typeis(specDest(s, lvl)[k], LWs) && implies(typeis(specDest(s, lvl)[k], *logwr), dyn(specDest(s, lvl)[k], *logwr) != nil && !typeis(dyn(specDest(s, lvl)[k], *logwr).Writer, *logwr) && !typeis(dyn(specDest(s, lvl)[k], *logwr).Writer, LWs)))
 //@   requires [INV-dw.warn] forall(k, 0, len(specDest(s, WarnLevel)), !isnil(specDest(s, WarnLevel)[k]) && !typeis(specDest(s, WarnLevel)[k], LWs) && implies(typeis(specDest(s, WarnLevel)[k], *logwr), dyn(specDest(s, WarnLevel)[k], *logwr) != nil && !typeis(dyn(specDest(s, WarnLevel)[k], *logwr).Writer, *logwr) && !typeis(dyn(specDest(s, WarnLevel)[k], *logwr).Writer, LWs)))
 //@   assigns everything
-//@   keeps PrintCtx.off, PrintCtx.lvl
+//@   keeps PrintCtx.off, PrintCtx.lvl, PrintCtx.prefix, PrintCtx.inGroupedMode, PrintCtx.noQuoted, PrintCtx.dedupeAttrs
 //@   at call (*Entry).writeInternal assert [C14.C15.thru] callee.s == s && callee.stackFrame == stackFrame && callee.lvl == lvl && callee.buf == buf
 
 //@ func (*Entry).writeInternal
@@ -215,7 +217,7 @@ func specInterrupts() bool {
 //@   requires [INV-dw] forall(k, 0, len(specDest(s, lvl)), !isnil(specDest(s, lvl)[k]) && !typeis(specDest(s, lvl)[k], LWs) && implies(typeis(specDest(s, lvl)[k], *logwr), dyn(specDest(s, lvl)[k], *logwr) != nil && !typeis(dyn(specDest(s, lvl)[k], *logwr).Writer, *logwr) && !typeis(dyn(specDest(s, lvl)[k], *logwr).Writer, LWs)))
 //@   requires [INV-dw.warn] forall(k, 0, len(specDest(s, WarnLevel)), !isnil(specDest(s, WarnLevel)[k]) && !typeis(specDest(s, WarnLevel)[k], LWs) && implies(typeis(specDest(s, WarnLevel)[k], *logwr), dyn(specDest(s, WarnLevel)[k], *logwr) != nil && !typeis(dyn(specDest(s, WarnLevel)[k], *logwr).Writer, *logwr) && !typeis(dyn(specDest(s, WarnLevel)[k], *logwr).Writer, LWs)))
 //@   assigns everything
-//@   keeps PrintCtx.off, PrintCtx.lvl
+//@   keeps PrintCtx.off, PrintCtx.lvl, PrintCtx.prefix, PrintCtx.inGroupedMode, PrintCtx.noQuoted, PrintCtx.dedupeAttrs
 //@   at call (*Entry).print assert [C14.thru] callee.s == s && callee.stackFrame == stackFrame && callee.lvl == lvl
 //@   at call (*Entry).print assert [C15.bridge-msg] len(callee.msg) == ite(len(buf) > 0 && buf[len(buf)-1] == 10, len(buf)-1, len(buf)) && forall(i, 0, len(callee.msg), callee.msg[i] == buf[i]) && len(callee.kvps) == 0
 //@   ensures [C15.bridge-n] n == old(len(buf)) && isnil(err)
@@ -263,7 +265,7 @@ func specInterrupts() bool {
 //@   requires [INV-dw.warn] forall(k, 0, len(specDest(s, WarnLevel)), !isnil(specDest(s, WarnLevel)[k]) && !typeis(specDest(s, WarnLevel)[k], LWs) && implies(typeis(specDest(s, WarnLevel)[k], *logwr), dyn(specDest(s, WarnLevel)[k], *logwr) != nil && !typeis(dyn(specDest(s, WarnLevel)[k], *logwr).Writer, *logwr) && !typeis(dyn(specDest(s, WarnLevel)[k], *logwr).Writer, LWs)))
 //@   effect ghost.emits = ghost.emits + 1
 //@   assigns everything
-//@   keeps PrintCtx.off, PrintCtx.lvl
+//@   keeps PrintCtx.off, PrintCtx.lvl, PrintCtx.prefix, PrintCtx.inGroupedMode, PrintCtx.noQuoted, PrintCtx.dedupeAttrs
 //@   panics [C12.panic] when lvl == PanicLevel && specInterrupts() && isnil(s.handlerOpt)
 //@   exits [C12.exit] when lvl == FatalLevel && specInterrupts() && isnil(s.handlerOpt)
 //@   ensures [C01.count] ghost.emits >= old(ghost.emits) + 1
@@ -306,7 +308,7 @@ func specInterrupts() bool {
 //@   props C01 C02 C12 C13 C14
 //@   requires s != nil && specFmtInv(s) && 0 <= s.extraFrames && s.extraFrames <= 1048576
 //@   assigns everything
-//@   keeps PrintCtx.off, PrintCtx.lvl
+//@   keeps PrintCtx.off, PrintCtx.lvl, PrintCtx.prefix, PrintCtx.inGroupedMode, PrintCtx.noQuoted, PrintCtx.dedupeAttrs
 //@   panics [C12.panic] when specAdmits(s.level, PanicLevel) && specInterrupts() && isnil(s.handlerOpt)
 //@   requires defaultWriter != nil && ghost.trN >= 0
 //@   requires [INV-dw] forall(k, 0, len(specDest(s, PanicLevel)), !isnil(specDest(s, PanicLevel)[k]) && !typeis(specDest(s, PanicLevel)[k], LWs) && implies(typeis(specDest(s, PanicLevel)[k], *logwr), dyn(specDest(s, PanicLevel)[k], *logwr) != nil && !typeis(dyn(specDest(s, PanicLevel)[k], *logwr).Writer, *logwr) && !typeis(dyn(specDest(s, PanicLevel)[k], *logwr).Writer, LWs)))
@@ -328,7 +330,7 @@ func specInterrupts() bool {
 //@   props C01 C02 C12 C13 C14
 //@   requires s != nil && specFmtInv(s) && 0 <= s.extraFrames && s.extraFrames <= 1048576
 //@   assigns everything
-//@   keeps PrintCtx.off, PrintCtx.lvl
+//@   keeps PrintCtx.off, PrintCtx.lvl, PrintCtx.prefix, PrintCtx.inGroupedMode, PrintCtx.noQuoted, PrintCtx.dedupeAttrs
 //@   exits [C12.exit] when specAdmits(s.level, FatalLevel) && specInterrupts() && isnil(s.handlerOpt)
 //@   requires defaultWriter != nil && ghost.trN >= 0
 //@   requires [INV-dw] forall(k, 0, len(specDest(s, FatalLevel)), !isnil(specDest(s, FatalLevel)[k]) && !typeis(specDest(s, FatalLevel)[k], LWs) && implies(typeis(specDest(s, FatalLevel)[k], *logwr), dyn(specDest(s, FatalLevel)[k], *logwr) != nil && !typeis(dyn(specDest(s, FatalLevel)[k], *logwr).Writer, *logwr) && !typeis(dyn(specDest(s, FatalLevel)[k], *logwr).Writer, LWs)))
@@ -350,7 +352,7 @@ func specInterrupts() bool {
 //@   props C01 C02 C12 C13 C14
 //@   requires s != nil && specFmtInv(s) && 0 <= s.extraFrames && s.extraFrames <= 1048576
 //@   assigns everything
-//@   keeps PrintCtx.off, PrintCtx.lvl
+//@   keeps PrintCtx.off, PrintCtx.lvl, PrintCtx.prefix, PrintCtx.inGroupedMode, PrintCtx.noQuoted, PrintCtx.dedupeAttrs
 //@   requires defaultWriter != nil && ghost.trN >= 0
 //@   requires [INV-dw] forall(k, 0, len(specDest(s, ErrorLevel)), !isnil(specDest(s, ErrorLevel)[k]) && !typeis(specDest(s, ErrorLevel)[k], LWs) && implies(typeis(specDest(s, ErrorLevel)[k], *logwr), dyn(specDest(s, ErrorLevel)[k], *logwr) != nil && !typeis(dyn(specDest(s, ErrorLevel)[k], *logwr).Writer, *logwr) && !typeis(dyn(specDest(s, ErrorLevel)[k], *logwr).Writer, LWs)))
 //@   requires [INV-dw.warn] forall(k, 0, len(specDest(s, WarnLevel)), !isnil(specDest(s, WarnLevel)[k]) && !typeis(specDest(s, WarnLevel)[k], LWs) && implies(typeis(specDest(s, WarnLevel)[k], *logwr), dyn(specDest(s, WarnLevel)[k], *logwr) != nil && !typeis(dyn(specDest(s, WarnLevel)[k], *logwr).Writer, *logwr) && !typeis(dyn(specDest(s, WarnLevel)[k], *logwr).Writer, LWs)))
@@ -371,7 +373,7 @@ func specInterrupts() bool {
 //@   props C01 C02 C12 C13 C14
 //@   requires s != nil && specFmtInv(s) && 0 <= s.extraFrames && s.extraFrames <= 1048576
 //@   assigns everything
-//@   keeps PrintCtx.off, PrintCtx.lvl
+//@   keeps PrintCtx.off, PrintCtx.lvl, PrintCtx.prefix, PrintCtx.inGroupedMode, PrintCtx.noQuoted, PrintCtx.dedupeAttrs
 //@   requires defaultWriter != nil && ghost.trN >= 0
 //@   requires [INV-dw] forall(k, 0, len(specDest(s, WarnLevel)), !isnil(specDest(s, WarnLevel)[k]) && !typeis(specDest(s, WarnLevel)[k], LWs) && implies(typeis(specDest(s, WarnLevel)[k], *logwr), dyn(specDest(s, WarnLevel)[k], *logwr) != nil && !typeis(dyn(specDest(s, WarnLevel)[k], *logwr).Writer, *logwr) && !typeis(dyn(specDest(s, WarnLevel)[k], *logwr).Writer, LWs)))
 //@   requires [INV-dw.warn] forall(k, 0, len(specDest(s, WarnLevel)), !isnil(specDest(s, WarnLevel)[k]) && !typeis(specDest(s, WarnLevel)[k], LWs) && implies(typeis(specDest(s, WarnLevel)[k], *logwr), dyn(specDest(s, WarnLevel)[k], *logwr) != nil && !typeis(dyn(specDest(s, WarnLevel)[k], *logwr).Writer, *logwr) && !typeis(dyn(specDest(s, WarnLevel)[k], *logwr).Writer, LWs)))
@@ -392,7 +394,7 @@ func specInterrupts() bool {
 //@   props C01 C02 C12 C13 C14
 //@   requires s != nil && specFmtInv(s) && 0 <= s.extraFrames && s.extraFrames <= 1048576
 //@   assigns everything
-//@   keeps PrintCtx.off, PrintCtx.lvl
+//@   keeps PrintCtx.off, PrintCtx.lvl, PrintCtx.prefix, PrintCtx.inGroupedMode, PrintCtx.noQuoted, PrintCtx.dedupeAttrs
 //@   requires defaultWriter != nil && ghost.trN >= 0
 //@   requires [INV-dw] forall(k, 0, len(specDest(s, InfoLevel)), !isnil(specDest(s, InfoLevel)[k]) && !typeis(specDest(s, InfoLevel)[k], LWs) && implies(typeis(specDest(s, InfoLevel)[k], *logwr), dyn(specDest(s, InfoLevel)[k], *logwr) != nil && !typeis(dyn(specDest(s, InfoLevel)[k], *logwr).Writer, *logwr) && !typeis(dyn(specDest(s, InfoLevel)[k], *logwr).Writer, LWs)))
 //@   requires [INV-dw.warn] forall(k, 0, len(specDest(s, WarnLevel)), !isnil(specDest(s, WarnLevel)[k]) && !typeis(specDest(s, WarnLevel)[k], LWs) && implies(typeis(specDest(s, WarnLevel)[k], *logwr), dyn(specDest(s, WarnLevel)[k], *logwr) != nil && !typeis(dyn(specDest(s, WarnLevel)[k], *logwr).Writer, *logwr) && !typeis(dyn(specDest(s, WarnLevel)[k], *logwr).Writer, LWs)))
@@ -413,7 +415,7 @@ func specInterrupts() bool {
 //@   props C01 C02 C12 C13 C14
 //@   requires s != nil && specFmtInv(s) && 0 <= s.extraFrames && s.extraFrames <= 1048576
 //@   assigns everything
-//@   keeps PrintCtx.off, PrintCtx.lvl
+//@   keeps PrintCtx.off, PrintCtx.lvl, PrintCtx.prefix, PrintCtx.inGroupedMode, PrintCtx.noQuoted, PrintCtx.dedupeAttrs
 //@   requires defaultWriter != nil && ghost.trN >= 0
 //@   requires [INV-dw] forall(k, 0, len(specDest(s, DebugLevel)), !isnil(specDest(s, DebugLevel)[k]) && !typeis(specDest(s, DebugLevel)[k], LWs) && implies(typeis(specDest(s, DebugLevel)[k], *logwr), dyn(specDest(s, DebugLevel)[k], *logwr) != nil && !typeis(dyn(specDest(s, DebugLevel)[k], *logwr).Writer, *logwr) && !typeis(dyn(specDest(s, DebugLevel)[k], *logwr).Writer, LWs)))
 //@   requires [INV-dw.warn] forall(k, 0, len(specDest(s, WarnLevel)), !isnil(specDest(s, WarnLevel)[k]) && !typeis(specDest(s, WarnLevel)[k], LWs) && implies(typeis(specDest(s, WarnLevel)[k], *logwr), dyn(specDest(s, WarnLevel)[k], *logwr) != nil && !typeis(dyn(specDest(s, WarnLevel)[k], *logwr).Writer, *logwr) && !typeis(dyn(specDest(s, WarnLevel)[k], *logwr).Writer, LWs)))
@@ -434,7 +436,7 @@ func specInterrupts() bool {
 //@   props C01 C02 C12 C13 C14
 //@   requires s != nil && specFmtInv(s) && 0 <= s.extraFrames && s.extraFrames <= 1048576
 //@   assigns everything
-//@   keeps PrintCtx.off, PrintCtx.lvl
+//@   keeps PrintCtx.off, PrintCtx.lvl, PrintCtx.prefix, PrintCtx.inGroupedMode, PrintCtx.noQuoted, PrintCtx.dedupeAttrs
 //@   requires defaultWriter != nil && ghost.trN >= 0
 //@   requires [INV-dw] forall(k, 0, len(specDest(s, TraceLevel)), !isnil(specDest(s, TraceLevel)[k]) && !typeis(specDest(s, TraceLevel)[k], LWs) && implies(typeis(specDest(s, TraceLevel)[k], *logwr), dyn(specDest(s, TraceLevel)[k], *logwr) != nil && !typeis(dyn(specDest(s, TraceLevel)[k], *logwr).Writer, *logwr) && !typeis(dyn(specDest(s, TraceLevel)[k], *logwr).Writer, LWs)))
 //@   requires [INV-dw.warn] forall(k, 0, len(specDest(s, WarnLevel)), !isnil(specDest(s, WarnLevel)[k]) && !typeis(specDest(s, WarnLevel)[k], LWs) && implies(typeis(specDest(s, WarnLevel)[k], *logwr), dyn(specDest(s, WarnLevel)[k], *logwr) != nil && !typeis(dyn(specDest(s, WarnLevel)[k], *logwr).Writer, *logwr) && !typeis(dyn(specDest(s, WarnLevel)[k], *logwr).Writer, LWs)))
@@ -455,7 +457,7 @@ func specInterrupts() bool {
 //@   props C01 C02 C12 C13 C14
 //@   requires s != nil && specFmtInv(s) && 0 <= s.extraFrames && s.extraFrames <= 1048576
 //@   assigns everything
-//@   keeps PrintCtx.off, PrintCtx.lvl
+//@   keeps PrintCtx.off, PrintCtx.lvl, PrintCtx.prefix, PrintCtx.inGroupedMode, PrintCtx.noQuoted, PrintCtx.dedupeAttrs
 //@   requires defaultWriter != nil && ghost.trN >= 0
 //@   requires [INV-dw] forall(k, 0, len(specDest(s, AlwaysLevel)), !isnil(specDest(s, AlwaysLevel)[k]) && !typeis(specDest(s, AlwaysLevel)[k], LWs) && implies(typeis(specDest(s, AlwaysLevel)[k], *logwr), dyn(specDest(s, AlwaysLevel)[k], *logwr) != nil && !typeis(dyn(specDest(s, AlwaysLevel)[k], *logwr).Writer, *logwr) && !typeis(dyn(specDest(s, AlwaysLevel)[k], *logwr).Writer, LWs)))
 //@   requires [INV-dw.warn] forall(k, 0, len(specDest(s, WarnLevel)), !isnil(specDest(s, WarnLevel)[k]) && !typeis(specDest(s, WarnLevel)[k], LWs) && implies(typeis(specDest(s, WarnLevel)[k], *logwr), dyn(specDest(s, WarnLevel)[k], *logwr) != nil && !typeis(dyn(specDest(s, WarnLevel)[k], *logwr).Writer, *logwr) && !typeis(dyn(specDest(s, WarnLevel)[k], *logwr).Writer, LWs)))
@@ -476,7 +478,7 @@ func specInterrupts() bool {
 //@   props C01 C02 C12 C13 C14
 //@   requires s != nil && specFmtInv(s) && 0 <= s.extraFrames && s.extraFrames <= 1048576
 //@   assigns everything
-//@   keeps PrintCtx.off, PrintCtx.lvl
+//@   keeps PrintCtx.off, PrintCtx.lvl, PrintCtx.prefix, PrintCtx.inGroupedMode, PrintCtx.noQuoted, PrintCtx.dedupeAttrs
 //@   requires defaultWriter != nil && ghost.trN >= 0
 //@   requires [INV-dw] forall(k, 0, len(specDest(s, OKLevel)), !isnil(specDest(s, OKLevel)[k]) && !typeis(specDest(s, OKLevel)[k], LWs) && implies(typeis(specDest(s, OKLevel)[k], *logwr), dyn(specDest(s, OKLevel)[k], *logwr) != nil && !typeis(dyn(specDest(s, OKLevel)[k], *logwr).Writer, *logwr) && !typeis(dyn(specDest(s, OKLevel)[k], *logwr).Writer, LWs)))
 //@   requires [INV-dw.warn] forall(k, 0, len(specDest(s, WarnLevel)), !isnil(specDest(s, WarnLevel)[k]) && !typeis(specDest(s, WarnLevel)[k], LWs) && implies(typeis(specDest(s, WarnLevel)[k], *logwr), dyn(specDest(s, WarnLevel)[k], *logwr) != nil && !typeis(dyn(specDest(s, WarnLevel)[k], *logwr).Writer, *logwr) && !typeis(dyn(specDest(s, WarnLevel)[k], *logwr).Writer, LWs)))
@@ -497,7 +499,7 @@ func specInterrupts() bool {
 //@   props C01 C02 C12 C13 C14
 //@   requires s != nil && specFmtInv(s) && 0 <= s.extraFrames && s.extraFrames <= 1048576
 //@   assigns everything
-//@   keeps PrintCtx.off, PrintCtx.lvl
+//@   keeps PrintCtx.off, PrintCtx.lvl, PrintCtx.prefix, PrintCtx.inGroupedMode, PrintCtx.noQuoted, PrintCtx.dedupeAttrs
 //@   requires defaultWriter != nil && ghost.trN >= 0
 //@   requires [INV-dw] forall(k, 0, len(specDest(s, SuccessLevel)), !isnil(specDest(s, SuccessLevel)[k]) && !typeis(specDest(s, SuccessLevel)[k], LWs) && implies(typeis(specDest(s, SuccessLevel)[k], *logwr), dyn(specDest(s, SuccessLevel)[k], *logwr) != nil && !typeis(dyn(specDest(s, SuccessLevel)[k], *logwr).Writer, *logwr) && !typeis(dyn(specDest(s, SuccessLevel)[k], *logwr).Writer, LWs)))
 //@   requires [INV-dw.warn] forall(k, 0, len(specDest(s, WarnLevel)), !isnil(specDest(s, WarnLevel)[k]) && !typeis(specDest(s, WarnLevel)[k], LWs) && implies(typeis(specDest(s, WarnLevel)[k], *logwr), dyn(specDest(s, WarnLevel)[k], *logwr) != nil && !typeis(dyn(specDest(s, WarnLevel)[k], *logwr).Writer, *logwr) && !typeis(dyn(specDest(s, WarnLevel)[k], *logwr).Writer, LWs)))
@@ -518,7 +520,7 @@ func specInterrupts() bool {
 //@   props C01 C02 C12 C13 C14
 //@   requires s != nil && specFmtInv(s) && 0 <= s.extraFrames && s.extraFrames <= 1048576
 //@   assigns everything
-//@   keeps PrintCtx.off, PrintCtx.lvl
+//@   keeps PrintCtx.off, PrintCtx.lvl, PrintCtx.prefix, PrintCtx.inGroupedMode, PrintCtx.noQuoted, PrintCtx.dedupeAttrs
 //@   requires defaultWriter != nil && ghost.trN >= 0
 //@   requires [INV-dw] forall(k, 0, len(specDest(s, FailLevel)), !isnil(specDest(s, FailLevel)[k]) && !typeis(specDest(s, FailLevel)[k], LWs) && implies(typeis(specDest(s, FailLevel)[k], *logwr), dyn(specDest(s, FailLevel)[k], *logwr) != nil && !typeis(dyn(specDest(s, FailLevel)[k], *logwr).Writer, *logwr) && !typeis(dyn(specDest(s, FailLevel)[k], *logwr).Writer, LWs)))
 //@   requires [INV-dw.warn] forall(k, 0, len(specDest(s, WarnLevel)), !isnil(specDest(s, WarnLevel)[k]) && !typeis(specDest(s, WarnLevel)[k], LWs) && implies(typeis(specDest(s, WarnLevel)[k], *logwr), dyn(specDest(s, WarnLevel)[k], *logwr) != nil && !typeis(dyn(specDest(s, WarnLevel)[k], *logwr).Writer, *logwr) && !typeis(dyn(specDest(s, WarnLevel)[k], *logwr).Writer, LWs)))
@@ -539,7 +541,7 @@ func specInterrupts() bool {
 //@   props C01 C02 C12 C13 C14
 //@   requires s != nil && specFmtInv(s) && 0 <= s.extraFrames && s.extraFrames <= 1048576
 //@   assigns everything
-//@   keeps PrintCtx.off, PrintCtx.lvl
+//@   keeps PrintCtx.off, PrintCtx.lvl, PrintCtx.prefix, PrintCtx.inGroupedMode, PrintCtx.noQuoted, PrintCtx.dedupeAttrs
 //@   requires defaultWriter != nil && ghost.trN >= 0
 //@   requires [INV-dw] forall(k, 0, len(specDest(s, AlwaysLevel)), !isnil(specDest(s, AlwaysLevel)[k]) && !typeis(specDest(s, AlwaysLevel)[k], LWs) && implies(typeis(specDest(s, AlwaysLevel)[k], *logwr), dyn(specDest(s, AlwaysLevel)[k], *logwr) != nil && !typeis(dyn(specDest(s, AlwaysLevel)[k], *logwr).Writer, *logwr) && !typeis(dyn(specDest(s, AlwaysLevel)[k], *logwr).Writer, LWs)))
 //@   requires [INV-dw.warn] forall(k, 0, len(specDest(s, WarnLevel)), !isnil(specDest(s, WarnLevel)[k]) && !typeis(specDest(s, WarnLevel)[k], LWs) && implies(typeis(specDest(s, WarnLevel)[k], *logwr), dyn(specDest(s, WarnLevel)[k], *logwr) != nil && !typeis(dyn(specDest(s, WarnLevel)[k], *logwr).Writer, *logwr) && !typeis(dyn(specDest(s, WarnLevel)[k], *logwr).Writer, LWs)))
@@ -560,7 +562,7 @@ func specInterrupts() bool {
 //@   props C01 C02 C12 C13 C14
 //@   requires s != nil && specFmtInv(s) && 0 <= s.extraFrames && s.extraFrames <= 1048576
 //@   assigns everything
-//@   keeps PrintCtx.off, PrintCtx.lvl
+//@   keeps PrintCtx.off, PrintCtx.lvl, PrintCtx.prefix, PrintCtx.inGroupedMode, PrintCtx.noQuoted, PrintCtx.dedupeAttrs
 //@   panics [C12.panic] when specAdmits(s.level, PanicLevel) && specInterrupts() && isnil(s.handlerOpt)
 //@   requires defaultWriter != nil && ghost.trN >= 0
 //@   requires [INV-dw] forall(k, 0, len(specDest(s, PanicLevel)), !isnil(specDest(s, PanicLevel)[k]) && !typeis(specDest(s, PanicLevel)[k], LWs) && implies(typeis(specDest(s, PanicLevel)[k], *logwr), dyn(specDest(s, PanicLevel)[k], *logwr) != nil && !typeis(dyn(specDest(s, PanicLevel)[k], *logwr).Writer, *logwr) && !typeis(dyn(specDest(s, PanicLevel)[k], *logwr).Writer, LWs)))
@@ -584,7 +586,7 @@ func specInterrupts() bool {
 //@   props C01 C02 C12 C13 C14
 //@   requires s != nil && specFmtInv(s) && 0 <= s.extraFrames && s.extraFrames <= 1048576
 //@   assigns everything
-//@   keeps PrintCtx.off, PrintCtx.lvl
+//@   keeps PrintCtx.off, PrintCtx.lvl, PrintCtx.prefix, PrintCtx.inGroupedMode, PrintCtx.noQuoted, PrintCtx.dedupeAttrs
 //@   exits [C12.exit] when specAdmits(s.level, FatalLevel) && specInterrupts() && isnil(s.handlerOpt)
 //@   requires defaultWriter != nil && ghost.trN >= 0
 //@   requires [INV-dw] forall(k, 0, len(specDest(s, FatalLevel)), !isnil(specDest(s, FatalLevel)[k]) && !typeis(specDest(s, FatalLevel)[k], LWs) && implies(typeis(specDest(s, FatalLevel)[k], *logwr), dyn(specDest(s, FatalLevel)[k], *logwr) != nil && !typeis(dyn(specDest(s, FatalLevel)[k], *logwr).Writer, *logwr) && !typeis(dyn(specDest(s, FatalLevel)[k], *logwr).Writer, LWs)))
@@ -608,7 +610,7 @@ func specInterrupts() bool {
 //@   props C01 C02 C12 C13 C14
 //@   requires s != nil && specFmtInv(s) && 0 <= s.extraFrames && s.extraFrames <= 1048576
 //@   assigns everything
-//@   keeps PrintCtx.off, PrintCtx.lvl
+//@   keeps PrintCtx.off, PrintCtx.lvl, PrintCtx.prefix, PrintCtx.inGroupedMode, PrintCtx.noQuoted, PrintCtx.dedupeAttrs
 //@   requires defaultWriter != nil && ghost.trN >= 0
 //@   requires [INV-dw] forall(k, 0, len(specDest(s, ErrorLevel)), !isnil(specDest(s, ErrorLevel)[k]) && !typeis(specDest(s, ErrorLevel)[k], LWs) && implies(typeis(specDest(s, ErrorLevel)[k], *logwr), dyn(specDest(s, ErrorLevel)[k], *logwr) != nil && !typeis(dyn(specDest(s, ErrorLevel)[k], *logwr).Writer, *logwr) && !typeis(dyn(specDest(s, ErrorLevel)[k], *logwr).Writer, LWs)))
 //@   requires [INV-dw.warn] forall(k, 0, len(specDest(s, WarnLevel)), !isnil(specDest(s, WarnLevel)[k]) && !typeis(specDest(s, WarnLevel)[k], LWs) && implies(typeis(specDest(s, WarnLevel)[k], *logwr), dyn(specDest(s, WarnLevel)[k], *logwr) != nil && !typeis(dyn(specDest(s, WarnLevel)[k], *logwr).Writer, *logwr) && !typeis(dyn(specDest(s, WarnLevel)[k], *logwr).Writer, LWs)))
@@ -631,7 +633,7 @@ func specInterrupts() bool {
 //@   props C01 C02 C12 C13 C14
 //@   requires s != nil && specFmtInv(s) && 0 <= s.extraFrames && s.extraFrames <= 1048576
 //@   assigns everything
-//@   keeps PrintCtx.off, PrintCtx.lvl
+//@   keeps PrintCtx.off, PrintCtx.lvl, PrintCtx.prefix, PrintCtx.inGroupedMode, PrintCtx.noQuoted, PrintCtx.dedupeAttrs
 //@   requires defaultWriter != nil && ghost.trN >= 0
 //@   requires [INV-dw] forall(k, 0, len(specDest(s, WarnLevel)), !isnil(specDest(s, WarnLevel)[k]) && !typeis(specDest(s, WarnLevel)[k], LWs) && implies(typeis(specDest(s, WarnLevel)[k], *logwr), dyn(specDest(s, WarnLevel)[k], *logwr) != nil && !typeis(dyn(specDest(s, WarnLevel)[k], *logwr).Writer, *logwr) && !typeis(dyn(specDest(s, WarnLevel)[k], *logwr).Writer, LWs)))
 //@   requires [INV-dw.warn] forall(k, 0, len(specDest(s, WarnLevel)), !isnil(specDest(s, WarnLevel)[k]) && !typeis(specDest(s, WarnLevel)[k], LWs) && implies(typeis(specDest(s, WarnLevel)[k], *logwr), dyn(specDest(s, WarnLevel)[k], *logwr) != nil && !typeis(dyn(specDest(s, WarnLevel)[k], *logwr).Writer, *logwr) && !typeis(dyn(specDest(s, WarnLevel)[k], *logwr).Writer, LWs)))
@@ -654,7 +656,7 @@ func specInterrupts() bool {
 //@   props C01 C02 C12 C13 C14
 //@   requires s != nil && specFmtInv(s) && 0 <= s.extraFrames && s.extraFrames <= 1048576
 //@   assigns everything
-//@   keeps PrintCtx.off, PrintCtx.lvl
+//@   keeps PrintCtx.off, PrintCtx.lvl, PrintCtx.prefix, PrintCtx.inGroupedMode, PrintCtx.noQuoted, PrintCtx.dedupeAttrs
 //@   requires defaultWriter != nil && ghost.trN >= 0
 //@   requires [INV-dw] forall(k, 0, len(specDest(s, InfoLevel)), !isnil(specDest(s, InfoLevel)[k]) && !typeis(specDest(s, InfoLevel)[k], LWs) && implies(typeis(specDest(s, InfoLevel)[k], *logwr), dyn(specDest(s, InfoLevel)[k], *logwr) != nil && !typeis(dyn(specDest(s, InfoLevel)[k], *logwr).Writer, *logwr) && !typeis(dyn(specDest(s, InfoLevel)[k], *logwr).Writer, LWs)))
 //@   requires [INV-dw.warn] forall(k, 0, len(specDest(s, WarnLevel)), !isnil(specDest(s, WarnLevel)[k]) && !typeis(specDest(s, WarnLevel)[k], LWs) && implies(typeis(specDest(s, WarnLevel)[k], *logwr), dyn(specDest(s, WarnLevel)[k], *logwr) != nil && !typeis(dyn(specDest(s, WarnLevel)[k], *logwr).Writer, *logwr) && !typeis(dyn(specDest(s, WarnLevel)[k], *logwr).Writer, LWs)))
@@ -677,7 +679,7 @@ func specInterrupts() bool {
 //@   props C01 C02 C12 C13 C14
 //@   requires s != nil && specFmtInv(s) && 0 <= s.extraFrames && s.extraFrames <= 1048576
 //@   assigns everything
-//@   keeps PrintCtx.off, PrintCtx.lvl
+//@   keeps PrintCtx.off, PrintCtx.lvl, PrintCtx.prefix, PrintCtx.inGroupedMode, PrintCtx.noQuoted, PrintCtx.dedupeAttrs
 //@   requires defaultWriter != nil && ghost.trN >= 0
 //@   requires [INV-dw] forall(k, 0, len(specDest(s, DebugLevel)), !isnil(specDest(s, DebugLevel)[k]) && !typeis(specDest(s, DebugLevel)[k], LWs) && implies(typeis(specDest(s, DebugLevel)[k], *logwr), dyn(specDest(s, DebugLevel)[k], *logwr) != nil && !typeis(dyn(specDest(s, DebugLevel)[k], *logwr).Writer, *logwr) && !typeis(dyn(specDest(s, DebugLevel)[k], *logwr).Writer, LWs)))
 //@   requires [INV-dw.warn] forall(k, 0, len(specDest(s, WarnLevel)), !isnil(specDest(s, WarnLevel)[k]) && !typeis(specDest(s, WarnLevel)[k], LWs) && implies(typeis(specDest(s, WarnLevel)[k], *logwr), dyn(specDest(s, WarnLevel)[k], *logwr) != nil && !typeis(dyn(specDest(s, WarnLevel)[k], *logwr).Writer, *logwr) && !typeis(dyn(specDest(s, WarnLevel)[k], *logwr).Writer, LWs)))
@@ -700,7 +702,7 @@ func specInterrupts() bool {
 //@   props C01 C02 C12 C13 C14
 //@   requires s != nil && specFmtInv(s) && 0 <= s.extraFrames && s.extraFrames <= 1048576
 //@   assigns everything
-//@   keeps PrintCtx.off, PrintCtx.lvl
+//@   keeps PrintCtx.off, PrintCtx.lvl, PrintCtx.prefix, PrintCtx.inGroupedMode, PrintCtx.noQuoted, PrintCtx.dedupeAttrs
 //@   requires defaultWriter != nil && ghost.trN >= 0
 //@   requires [INV-dw] forall(k, 0, len(specDest(s, TraceLevel)), !isnil(specDest(s, TraceLevel)[k]) && !typeis(specDest(s, TraceLevel)[k], LWs) && implies(typeis(specDest(s, TraceLevel)[k], *logwr), dyn(specDest(s, TraceLevel)[k], *logwr) != nil && !typeis(dyn(specDest(s, TraceLevel)[k], *logwr).Writer, *logwr) && !typeis(dyn(specDest(s, TraceLevel)[k], *logwr).Writer, LWs)))
 //@   requires [INV-dw.warn] forall(k, 0, len(specDest(s, WarnLevel)), !isnil(specDest(s, WarnLevel)[k]) && !typeis(specDest(s, WarnLevel)[k], LWs) && implies(typeis(specDest(s, WarnLevel)[k], *logwr), dyn(specDest(s, WarnLevel)[k], *logwr) != nil && !typeis(dyn(specDest(s, WarnLevel)[k], *logwr).Writer, *logwr) && !typeis(dyn(specDest(s, WarnLevel)[k], *logwr).Writer, LWs)))
@@ -723,7 +725,7 @@ func specInterrupts() bool {
 //@   props C01 C02 C12 C13 C14
 //@   requires s != nil && specFmtInv(s) && 0 <= s.extraFrames && s.extraFrames <= 1048576
 //@   assigns everything
-//@   keeps PrintCtx.off, PrintCtx.lvl
+//@   keeps PrintCtx.off, PrintCtx.lvl, PrintCtx.prefix, PrintCtx.inGroupedMode, PrintCtx.noQuoted, PrintCtx.dedupeAttrs
 //@   requires defaultWriter != nil && ghost.trN >= 0
 //@   requires [INV-dw] forall(k, 0, len(specDest(s, AlwaysLevel)), !isnil(specDest(s, AlwaysLevel)[k]) && !typeis(specDest(s, AlwaysLevel)[k], LWs) && implies(typeis(specDest(s, AlwaysLevel)[k], *logwr), dyn(specDest(s, AlwaysLevel)[k], *logwr) != nil && !typeis(dyn(specDest(s, AlwaysLevel)[k], *logwr).Writer, *logwr) && !typeis(dyn(specDest(s, AlwaysLevel)[k], *logwr).Writer, LWs)))
 //@   requires [INV-dw.warn] forall(k, 0, len(specDest(s, WarnLevel)), !isnil(specDest(s, WarnLevel)[k]) && !typeis(specDest(s, WarnLevel)[k], LWs) && implies(typeis(specDest(s, WarnLevel)[k], *logwr), dyn(specDest(s, WarnLevel)[k], *logwr) != nil && !typeis(dyn(specDest(s, WarnLevel)[k], *logwr).Writer, *logwr) && !typeis(dyn(specDest(s, WarnLevel)[k], *logwr).Writer, LWs)))
@@ -746,7 +748,7 @@ func specInterrupts() bool {
 //@   props C01 C02 C12 C13 C14
 //@   requires s != nil && specFmtInv(s) && 0 <= s.extraFrames && s.extraFrames <= 1048576
 //@   assigns everything
-//@   keeps PrintCtx.off, PrintCtx.lvl
+//@   keeps PrintCtx.off, PrintCtx.lvl, PrintCtx.prefix, PrintCtx.inGroupedMode, PrintCtx.noQuoted, PrintCtx.dedupeAttrs
 //@   requires defaultWriter != nil && ghost.trN >= 0
 //@   requires [INV-dw] forall(k, 0, len(specDest(s, OKLevel)), !isnil(specDest(s, OKLevel)[k]) && !typeis(specDest(s, OKLevel)[k], LWs) && implies(typeis(specDest(s, OKLevel)[k], *logwr), dyn(specDest(s, OKLevel)[k], *logwr) != nil && !typeis(dyn(specDest(s, OKLevel)[k], *logwr).Writer, *logwr) && !typeis(dyn(specDest(s, OKLevel)[k], *logwr).Writer, LWs)))
 //@   requires [INV-dw.warn] forall(k, 0, len(specDest(s, WarnLevel)), !isnil(specDest(s, WarnLevel)[k]) && !typeis(specDest(s, WarnLevel)[k], LWs) && implies(typeis(specDest(s, WarnLevel)[k], *logwr), dyn(specDest(s, WarnLevel)[k], *logwr) != nil && !typeis(dyn(specDest(s, WarnLevel)[k], *logwr).Writer, *logwr) && !typeis(dyn(specDest(s, WarnLevel)[k], *logwr).Writer, LWs)))
@@ -769,7 +771,7 @@ func specInterrupts() bool {
 //@   props C01 C02 C12 C13 C14
 //@   requires s != nil && specFmtInv(s) && 0 <= s.extraFrames && s.extraFrames <= 1048576
 //@   assigns everything
-//@   keeps PrintCtx.off, PrintCtx.lvl
+//@   keeps PrintCtx.off, PrintCtx.lvl, PrintCtx.prefix, PrintCtx.inGroupedMode, PrintCtx.noQuoted, PrintCtx.dedupeAttrs
 //@   requires defaultWriter != nil && ghost.trN >= 0
 //@   requires [INV-dw] forall(k, 0, len(specDest(s, SuccessLevel)), !isnil(specDest(s, SuccessLevel)[k]) && !typeis(specDest(s, SuccessLevel)[k], LWs) && implies(typeis(specDest(s, SuccessLevel)[k], *logwr), dyn(specDest(s, SuccessLevel)[k], *logwr) != nil && !typeis(dyn(specDest(s, SuccessLevel)[k], *logwr).Writer, *logwr) && !typeis(dyn(specDest(s, SuccessLevel)[k], *logwr).Writer, LWs)))
 //@   requires [INV-dw.warn] forall(k, 0, len(specDest(s, WarnLevel)), !isnil(specDest(s, WarnLevel)[k]) && !typeis(specDest(s, WarnLevel)[k], LWs) && implies(typeis(specDest(s, WarnLevel)[k], *logwr), dyn(specDest(s, WarnLevel)[k], *logwr) != nil && !typeis(dyn(specDest(s, WarnLevel)[k], *logwr).Writer, *logwr) && !typeis(dyn(specDest(s, WarnLevel)[k], *logwr).Writer, LWs)))
@@ -792,7 +794,7 @@ func specInterrupts() bool {
 //@   props C01 C02 C12 C13 C14
 //@   requires s != nil && specFmtInv(s) && 0 <= s.extraFrames && s.extraFrames <= 1048576
 //@   assigns everything
-//@   keeps PrintCtx.off, PrintCtx.lvl
+//@   keeps PrintCtx.off, PrintCtx.lvl, PrintCtx.prefix, PrintCtx.inGroupedMode, PrintCtx.noQuoted, PrintCtx.dedupeAttrs
 //@   requires defaultWriter != nil && ghost.trN >= 0
 //@   requires [INV-dw] forall(k, 0, len(specDest(s, FailLevel)), !isnil(specDest(s, FailLevel)[k]) && !typeis(specDest(s, FailLevel)[k], LWs) && implies(typeis(specDest(s, FailLevel)[k], *logwr), dyn(specDest(s, FailLevel)[k], *logwr) != nil && !typeis(dyn(specDest(s, FailLevel)[k], *logwr).Writer, *logwr) && !typeis(dyn(specDest(s, FailLevel)[k], *logwr).Writer, LWs)))
 //@   requires [INV-dw.warn] forall(k, 0, len(specDest(s, WarnLevel)), !isnil(specDest(s, WarnLevel)[k]) && !typeis(specDest(s, WarnLevel)[k], LWs) && implies(typeis(specDest(s, WarnLevel)[k], *logwr), dyn(specDest(s, WarnLevel)[k], *logwr) != nil && !typeis(dyn(specDest(s, WarnLevel)[k], *logwr).Writer, *logwr) && !typeis(dyn(specDest(s, WarnLevel)[k], *logwr).Writer, LWs)))
@@ -815,7 +817,7 @@ func specInterrupts() bool {
 //@   props C01 C02 C12 C13 C14
 //@   requires s != nil && specFmtInv(s) && 0 <= s.extraFrames && s.extraFrames <= 1048576
 //@   assigns everything
-//@   keeps PrintCtx.off, PrintCtx.lvl
+//@   keeps PrintCtx.off, PrintCtx.lvl, PrintCtx.prefix, PrintCtx.inGroupedMode, PrintCtx.noQuoted, PrintCtx.dedupeAttrs
 //@   requires defaultWriter != nil && ghost.trN >= 0
 //@   requires [INV-dw] forall(k, 0, len(specDest(s, AlwaysLevel)), !isnil(specDest(s, AlwaysLevel)[k]) && !typeis(specDest(s, AlwaysLevel)[k], LWs) && implies(typeis(specDest(s, AlwaysLevel)[k], *logwr), dyn(specDest(s, AlwaysLevel)[k], *logwr) != nil && !typeis(dyn(specDest(s, AlwaysLevel)[k], *logwr).Writer, *logwr) && !typeis(dyn(specDest(s, AlwaysLevel)[k], *logwr).Writer, LWs)))
 //@   requires [INV-dw.warn] forall(k, 0, len(specDest(s, WarnLevel)), !isnil(specDest(s, WarnLevel)[k]) && !typeis(specDest(s, WarnLevel)[k], LWs) && implies(typeis(specDest(s, WarnLevel)[k], *logwr), dyn(specDest(s, WarnLevel)[k], *logwr) != nil && !typeis(dyn(specDest(s, WarnLevel)[k], *logwr).Writer, *logwr) && !typeis(dyn(specDest(s, WarnLevel)[k], *logwr).Writer, LWs)))
@@ -838,7 +840,7 @@ func specInterrupts() bool {
 //@   props C01 C02 C12 C13 C14
 //@   requires s != nil && specFmtInv(s) && 0 <= s.extraFrames && s.extraFrames <= 1048576
 //@   assigns everything
-//@   keeps PrintCtx.off, PrintCtx.lvl
+//@   keeps PrintCtx.off, PrintCtx.lvl, PrintCtx.prefix, PrintCtx.inGroupedMode, PrintCtx.noQuoted, PrintCtx.dedupeAttrs
 //@   panics [C12.panic] when level == PanicLevel && specAdmits(s.level, level) && specInterrupts() && isnil(s.handlerOpt)
 //@   exits [C12.exit] when level == FatalLevel && specAdmits(s.level, level) && specInterrupts() && isnil(s.handlerOpt)
 //@   requires defaultWriter != nil && ghost.trN >= 0
@@ -863,7 +865,7 @@ func specInterrupts() bool {
 //@   props C01 C02 C12 C13 C14
 //@   requires s != nil && specFmtInv(s) && 0 <= s.extraFrames && s.extraFrames <= 1048576
 //@   assigns everything
-//@   keeps PrintCtx.off, PrintCtx.lvl
+//@   keeps PrintCtx.off, PrintCtx.lvl, PrintCtx.prefix, PrintCtx.inGroupedMode, PrintCtx.noQuoted, PrintCtx.dedupeAttrs
 //@   panics [C12.panic] when level == PanicLevel && specAdmits(s.level, level) && specInterrupts() && isnil(s.handlerOpt)
 //@   exits [C12.exit] when level == FatalLevel && specAdmits(s.level, level) && specInterrupts() && isnil(s.handlerOpt)
 //@   requires defaultWriter != nil && ghost.trN >= 0
@@ -888,7 +890,7 @@ func specInterrupts() bool {
 //@   props C01 C02 C12 C13 C14
 //@   requires s != nil && specFmtInv(s) && 0 <= s.extraFrames && s.extraFrames <= 1048576
 //@   assigns everything
-//@   keeps PrintCtx.off, PrintCtx.lvl
+//@   keeps PrintCtx.off, PrintCtx.lvl, PrintCtx.prefix, PrintCtx.inGroupedMode, PrintCtx.noQuoted, PrintCtx.dedupeAttrs
 //@   panics [C12.panic] when logsloglevel2Level(level) == PanicLevel && specAdmits(s.level, logsloglevel2Level(level)) && specInterrupts() && isnil(s.handlerOpt)
 //@   exits [C12.exit] when logsloglevel2Level(level) == FatalLevel && specAdmits(s.level, logsloglevel2Level(level)) && specInterrupts() && isnil(s.handlerOpt)
 //@   requires defaultWriter != nil && ghost.trN >= 0
@@ -913,7 +915,7 @@ func specInterrupts() bool {
 //@   props C01 C02 C12 C13 C14
 //@   requires s != nil && specFmtInv(s) && 0 <= s.extraFrames && s.extraFrames <= 1048576
 //@   assigns everything
-//@   keeps PrintCtx.off, PrintCtx.lvl
+//@   keeps PrintCtx.off, PrintCtx.lvl, PrintCtx.prefix, PrintCtx.inGroupedMode, PrintCtx.noQuoted, PrintCtx.dedupeAttrs
 //@   requires defaultWriter != nil && ghost.trN >= 0
 //@   requires [INV-dw] forall(k, 0, len(specDest(s, InfoLevel)), !isnil(specDest(s, InfoLevel)[k]) && !typeis(specDest(s, InfoLevel)[k], LWs) && implies(typeis(specDest(s, InfoLevel)[k], *logwr), dyn(specDest(s, InfoLevel)[k], *logwr) != nil && !typeis(dyn(specDest(s, InfoLevel)[k], *logwr).Writer, *logwr) && !typeis(dyn(specDest(s, InfoLevel)[k], *logwr).Writer, LWs)))
 //@   requires [INV-dw.warn] forall(k, 0, len(specDest(s, WarnLevel)), !isnil(specDest(s, WarnLevel)[k]) && !typeis(specDest(s, WarnLevel)[k], LWs) && implies(typeis(specDest(s, WarnLevel)[k], *logwr), dyn(specDest(s, WarnLevel)[k], *logwr) != nil && !typeis(dyn(specDest(s, WarnLevel)[k], *logwr).Writer, *logwr) && !typeis(dyn(specDest(s, WarnLevel)[k], *logwr).Writer, LWs)))
@@ -936,7 +938,7 @@ func specInterrupts() bool {
 //@   props C01 C02 C12 C13 C14
 //@   requires s != nil && specFmtInv(s) && 0 <= s.extraFrames && s.extraFrames <= 1048576
 //@   assigns everything
-//@   keeps PrintCtx.off, PrintCtx.lvl
+//@   keeps PrintCtx.off, PrintCtx.lvl, PrintCtx.prefix, PrintCtx.inGroupedMode, PrintCtx.noQuoted, PrintCtx.dedupeAttrs
 //@   requires defaultWriter != nil && ghost.trN >= 0
 //@   requires [INV-dw] forall(k, 0, len(specDest(s, WarnLevel)), !isnil(specDest(s, WarnLevel)[k]) && !typeis(specDest(s, WarnLevel)[k], LWs) && implies(typeis(specDest(s, WarnLevel)[k], *logwr), dyn(specDest(s, WarnLevel)[k], *logwr) != nil && !typeis(dyn(specDest(s, WarnLevel)[k], *logwr).Writer, *logwr) && !typeis(dyn(specDest(s, WarnLevel)[k], *logwr).Writer, LWs)))
 //@   requires [INV-dw.warn] forall(k, 0, len(specDest(s, WarnLevel)), !isnil(specDest(s, WarnLevel)[k]) && !typeis(specDest(s, WarnLevel)[k], LWs) && implies(typeis(specDest(s, WarnLevel)[k], *logwr), dyn(specDest(s, WarnLevel)[k], *logwr) != nil && !typeis(dyn(specDest(s, WarnLevel)[k], *logwr).Writer, *logwr) && !typeis(dyn(specDest(s, WarnLevel)[k], *logwr).Writer, LWs)))
@@ -959,7 +961,7 @@ func specInterrupts() bool {
 //@   props C01 C02 C12 C13 C14
 //@   requires s != nil && specFmtInv(s) && 0 <= s.extraFrames && s.extraFrames <= 1048576
 //@   assigns everything
-//@   keeps PrintCtx.off, PrintCtx.lvl
+//@   keeps PrintCtx.off, PrintCtx.lvl, PrintCtx.prefix, PrintCtx.inGroupedMode, PrintCtx.noQuoted, PrintCtx.dedupeAttrs
 //@   requires defaultWriter != nil && ghost.trN >= 0
 //@   requires [INV-dw] forall(k, 0, len(specDest(s, ErrorLevel)), !isnil(specDest(s, ErrorLevel)[k]) && !typeis(specDest(s, ErrorLevel)[k], LWs) && implies(typeis(specDest(s, ErrorLevel)[k], *logwr), dyn(specDest(s, ErrorLevel)[k], *logwr) != nil && !typeis(dyn(specDest(s, ErrorLevel)[k], *logwr).Writer, *logwr) && !typeis(dyn(specDest(s, ErrorLevel)[k], *logwr).Writer, LWs)))
 //@   requires [INV-dw.warn] forall(k, 0, len(specDest(s, WarnLevel)), !isnil(specDest(s, WarnLevel)[k]) && !typeis(specDest(s, WarnLevel)[k], LWs) && implies(typeis(specDest(s, WarnLevel)[k], *logwr), dyn(specDest(s, WarnLevel)[k], *logwr) != nil && !typeis(dyn(specDest(s, WarnLevel)[k], *logwr).Writer, *logwr) && !typeis(dyn(specDest(s, WarnLevel)[k], *logwr).Writer, LWs)))
@@ -982,7 +984,7 @@ func specInterrupts() bool {
 //@   props C01 C02 C12 C13 C14
 //@   requires s != nil && specFmtInv(s) && 0 <= s.extraFrames && s.extraFrames <= 1048576
 //@   assigns everything
-//@   keeps PrintCtx.off, PrintCtx.lvl
+//@   keeps PrintCtx.off, PrintCtx.lvl, PrintCtx.prefix, PrintCtx.inGroupedMode, PrintCtx.noQuoted, PrintCtx.dedupeAttrs
 //@   panics [C12.panic] when lvl == PanicLevel && specAdmits(s.level, lvl) && specInterrupts() && isnil(s.handlerOpt)
 //@   exits [C12.exit] when lvl == FatalLevel && specAdmits(s.level, lvl) && specInterrupts() && isnil(s.handlerOpt)
 //@   requires defaultWriter != nil && ghost.trN >= 0
@@ -1007,7 +1009,7 @@ func specInterrupts() bool {
 //@   props C01 C02 C12 C13 C14
 //@   requires specDefaultEntry() != nil && specFmtInv(specDefaultEntry()) && 0 <= specDefaultEntry().extraFrames && specDefaultEntry().extraFrames <= 1048576
 //@   assigns everything
-//@   keeps PrintCtx.off, PrintCtx.lvl
+//@   keeps PrintCtx.off, PrintCtx.lvl, PrintCtx.prefix, PrintCtx.inGroupedMode, PrintCtx.noQuoted, PrintCtx.dedupeAttrs
 //@   panics [C12.panic] when specAdmits(specDefaultEntry().level, PanicLevel) && specInterrupts() && isnil(specDefaultEntry().handlerOpt)
 //@   requires defaultWriter != nil && ghost.trN >= 0
 //@   requires [INV-dw] forall(k, 0, len(specDest(specDefaultEntry(), PanicLevel)), !isnil(specDest(specDefaultEntry(), PanicLevel)[k]) && !typeis(specDest(specDefaultEntry(), PanicLevel)[k], LWs) && implies(typeis(specDest(specDefaultEntry(), PanicLevel)[k], *logwr), dyn(specDest(specDefaultEntry(), PanicLevel)[k], *logwr) != nil && !typeis(dyn(specDest(specDefaultEntry(), PanicLevel)[k], *logwr).Writer, *logwr) && !typeis(dyn(specDest(specDefaultEntry(), PanicLevel)[k], *logwr).Writer, LWs)))
@@ -1029,7 +1031,7 @@ func specInterrupts() bool {
 //@   props C01 C02 C12 C13 C14
 //@   requires specDefaultEntry() != nil && specFmtInv(specDefaultEntry()) && 0 <= specDefaultEntry().extraFrames && specDefaultEntry().extraFrames <= 1048576
 //@   assigns everything
-//@   keeps PrintCtx.off, PrintCtx.lvl
+//@   keeps PrintCtx.off, PrintCtx.lvl, PrintCtx.prefix, PrintCtx.inGroupedMode, PrintCtx.noQuoted, PrintCtx.dedupeAttrs
 //@   exits [C12.exit] when specAdmits(specDefaultEntry().level, FatalLevel) && specInterrupts() && isnil(specDefaultEntry().handlerOpt)
 //@   requires defaultWriter != nil && ghost.trN >= 0
 //@   requires [INV-dw] forall(k, 0, len(specDest(specDefaultEntry(), FatalLevel)), !isnil(specDest(specDefaultEntry(), FatalLevel)[k]) && !typeis(specDest(specDefaultEntry(), FatalLevel)[k], LWs) && implies(typeis(specDest(specDefaultEntry(), FatalLevel)[k], *logwr), dyn(specDest(specDefaultEntry(), FatalLevel)[k], *logwr) != nil && !typeis(dyn(specDest(specDefaultEntry(), FatalLevel)[k], *logwr).Writer, *logwr) && !typeis(dyn(specDest(specDefaultEntry(), FatalLevel)[k], *logwr).Writer, LWs)))
@@ -1051,7 +1053,7 @@ func specInterrupts() bool {
 //@   props C01 C02 C12 C13 C14
 //@   requires specDefaultEntry() != nil && specFmtInv(specDefaultEntry()) && 0 <= specDefaultEntry().extraFrames && specDefaultEntry().extraFrames <= 1048576
 //@   assigns everything
-//@   keeps PrintCtx.off, PrintCtx.lvl
+//@   keeps PrintCtx.off, PrintCtx.lvl, PrintCtx.prefix, PrintCtx.inGroupedMode, PrintCtx.noQuoted, PrintCtx.dedupeAttrs
 //@   requires defaultWriter != nil && ghost.trN >= 0
 //@   requires [INV-dw] forall(k, 0, len(specDest(specDefaultEntry(), ErrorLevel)), !isnil(specDest(specDefaultEntry(), ErrorLevel)[k]) && !typeis(specDest(specDefaultEntry(), ErrorLevel)[k], LWs) && implies(typeis(specDest(specDefaultEntry(), ErrorLevel)[k], *logwr), dyn(specDest(specDefaultEntry(), ErrorLevel)[k], *logwr) != nil && !typeis(dyn(specDest(specDefaultEntry(), ErrorLevel)[k], *logwr).Writer, *logwr) && !typeis(dyn(specDest(specDefaultEntry(), ErrorLevel)[k], *logwr).Writer, LWs)))
 //@   requires [INV-dw.warn] forall(k, 0, len(specDest(specDefaultEntry(), WarnLevel)), !isnil(specDest(specDefaultEntry(), WarnLevel)[k]) && !typeis(specDest(specDefaultEntry(), WarnLevel)[k], LWs) && implies(typeis(specDest(specDefaultEntry(), WarnLevel)[k], *logwr), dyn(specDest(specDefaultEntry(), WarnLevel)[k], *logwr) != nil && !typeis(dyn(specDest(specDefaultEntry(), WarnLevel)[k], *logwr).Writer, *logwr) && !typeis(dyn(specDest(specDefaultEntry(), WarnLevel)[k], *logwr).Writer, LWs)))
@@ -1072,7 +1074,7 @@ func specInterrupts() bool {
 //@   props C01 C02 C12 C13 C14
 //@   requires specDefaultEntry() != nil && specFmtInv(specDefaultEntry()) && 0 <= specDefaultEntry().extraFrames && specDefaultEntry().extraFrames <= 1048576
 //@   assigns everything
-//@   keeps PrintCtx.off, PrintCtx.lvl
+//@   keeps PrintCtx.off, PrintCtx.lvl, PrintCtx.prefix, PrintCtx.inGroupedMode, PrintCtx.noQuoted, PrintCtx.dedupeAttrs
 //@   requires defaultWriter != nil && ghost.trN >= 0
 //@   requires [INV-dw] forall(k, 0, len(specDest(specDefaultEntry(), WarnLevel)), !isnil(specDest(specDefaultEntry(), WarnLevel)[k]) && !typeis(specDest(specDefaultEntry(), WarnLevel)[k], LWs) && implies(typeis(specDest(specDefaultEntry(), WarnLevel)[k], *logwr), dyn(specDest(specDefaultEntry(), WarnLevel)[k], *logwr) != nil && !typeis(dyn(specDest(specDefaultEntry(), WarnLevel)[k], *logwr).Writer, *logwr) && !typeis(dyn(specDest(specDefaultEntry(), WarnLevel)[k], *logwr).Writer, LWs)))
 //@   requires [INV-dw.warn] forall(k, 0, len(specDest(specDefaultEntry(), WarnLevel)), !isnil(specDest(specDefaultEntry(), WarnLevel)[k]) && !typeis(specDest(specDefaultEntry(), WarnLevel)[k], LWs) && implies(typeis(specDest(specDefaultEntry(), WarnLevel)[k], *logwr), dyn(specDest(specDefaultEntry(), WarnLevel)[k], *logwr) != nil && !typeis(dyn(specDest(specDefaultEntry(), WarnLevel)[k], *logwr).Writer, *logwr) && !typeis(dyn(specDest(specDefaultEntry(), WarnLevel)[k], *logwr).Writer, LWs)))
@@ -1093,7 +1095,7 @@ func specInterrupts() bool {
 //@   props C01 C02 C12 C13 C14
 //@   requires specDefaultEntry() != nil && specFmtInv(specDefaultEntry()) && 0 <= specDefaultEntry().extraFrames && specDefaultEntry().extraFrames <= 1048576
 //@   assigns everything
-//@   keeps PrintCtx.off, PrintCtx.lvl
+//@   keeps PrintCtx.off, PrintCtx.lvl, PrintCtx.prefix, PrintCtx.inGroupedMode, PrintCtx.noQuoted, PrintCtx.dedupeAttrs
 //@   requires defaultWriter != nil && ghost.trN >= 0
 //@   requires [INV-dw] forall(k, 0, len(specDest(specDefaultEntry(), InfoLevel)), !isnil(specDest(specDefaultEntry(), InfoLevel)[k]) && !typeis(specDest(specDefaultEntry(), InfoLevel)[k], LWs) && implies(typeis(specDest(specDefaultEntry(), InfoLevel)[k], *logwr), dyn(specDest(specDefaultEntry(), InfoLevel)[k], *logwr) != nil && !typeis(dyn(specDest(specDefaultEntry(), InfoLevel)[k], *logwr).Writer, *logwr) && !typeis(dyn(specDest(specDefaultEntry(), InfoLevel)[k], *logwr).Writer, LWs)))
 //@   requires [INV-dw.warn] forall(k, 0, len(specDest(specDefaultEntry(), WarnLevel)), !isnil(specDest(specDefaultEntry(), WarnLevel)[k]) && !typeis(specDest(specDefaultEntry(), WarnLevel)[k], LWs) && implies(typeis(specDest(specDefaultEntry(), WarnLevel)[k], *logwr), dyn(specDest(specDefaultEntry(), WarnLevel)[k], *logwr) != nil && !typeis(dyn(specDest(specDefaultEntry(), WarnLevel)[k], *logwr).Writer, *logwr) && !typeis(dyn(specDest(specDefaultEntry(), WarnLevel)[k], *logwr).Writer, LWs)))
@@ -1114,7 +1116,7 @@ func specInterrupts() bool {
 //@   props C01 C02 C12 C13 C14
 //@   requires specDefaultEntry() != nil && specFmtInv(specDefaultEntry()) && 0 <= specDefaultEntry().extraFrames && specDefaultEntry().extraFrames <= 1048576
 //@   assigns everything
-//@   keeps PrintCtx.off, PrintCtx.lvl
+//@   keeps PrintCtx.off, PrintCtx.lvl, PrintCtx.prefix, PrintCtx.inGroupedMode, PrintCtx.noQuoted, PrintCtx.dedupeAttrs
 //@   requires defaultWriter != nil && ghost.trN >= 0
 //@   requires [INV-dw] forall(k, 0, len(specDest(specDefaultEntry(), DebugLevel)), !isnil(specDest(specDefaultEntry(), DebugLevel)[k]) && !typeis(specDest(specDefaultEntry(), DebugLevel)[k], LWs) && implies(typeis(specDest(specDefaultEntry(), DebugLevel)[k], *logwr), dyn(specDest(specDefaultEntry(), DebugLevel)[k], *logwr) != nil && !typeis(dyn(specDest(specDefaultEntry(), DebugLevel)[k], *logwr).Writer, *logwr) && !typeis(dyn(specDest(specDefaultEntry(), DebugLevel)[k], *logwr).Writer, LWs)))
 //@   requires [INV-dw.warn] forall(k, 0, len(specDest(specDefaultEntry(), WarnLevel)), !isnil(specDest(specDefaultEntry(), WarnLevel)[k]) && !typeis(specDest(specDefaultEntry(), WarnLevel)[k], LWs) && implies(typeis(specDest(specDefaultEntry(), WarnLevel)[k], *logwr), dyn(specDest(specDefaultEntry(), WarnLevel)[k], *logwr) != nil && !typeis(dyn(specDest(specDefaultEntry(), WarnLevel)[k], *logwr).Writer, *logwr) && !typeis(dyn(specDest(specDefaultEntry(), WarnLevel)[k], *logwr).Writer, LWs)))
@@ -1135,7 +1137,7 @@ func specInterrupts() bool {
 //@   props C01 C02 C12 C13 C14
 //@   requires specDefaultEntry() != nil && specFmtInv(specDefaultEntry()) && 0 <= specDefaultEntry().extraFrames && specDefaultEntry().extraFrames <= 1048576
 //@   assigns everything
-//@   keeps PrintCtx.off, PrintCtx.lvl
+//@   keeps PrintCtx.off, PrintCtx.lvl, PrintCtx.prefix, PrintCtx.inGroupedMode, PrintCtx.noQuoted, PrintCtx.dedupeAttrs
 //@   requires defaultWriter != nil && ghost.trN >= 0
 //@   requires [INV-dw] forall(k, 0, len(specDest(specDefaultEntry(), TraceLevel)), !isnil(specDest(specDefaultEntry(), TraceLevel)[k]) && !typeis(specDest(specDefaultEntry(), TraceLevel)[k], LWs) && implies(typeis(specDest(specDefaultEntry(), TraceLevel)[k], *logwr), dyn(specDest(specDefaultEntry(), TraceLevel)[k], *logwr) != nil && !typeis(dyn(specDest(specDefaultEntry(), TraceLevel)[k], *logwr).Writer, *logwr) && !typeis(dyn(specDest(specDefaultEntry(), TraceLevel)[k], *logwr).Writer, LWs)))
 //@   requires [INV-dw.warn] forall(k, 0, len(specDest(specDefaultEntry(), WarnLevel)), !isnil(specDest(specDefaultEntry(), WarnLevel)[k]) && !typeis(specDest(specDefaultEntry(), WarnLevel)[k], LWs) && implies(typeis(specDest(specDefaultEntry(), WarnLevel)[k], *logwr), dyn(specDest(specDefaultEntry(), WarnLevel)[k], *logwr) != nil && !typeis(dyn(specDest(specDefaultEntry(), WarnLevel)[k], *logwr).Writer, *logwr) && !typeis(dyn(specDest(specDefaultEntry(), WarnLevel)[k], *logwr).Writer, LWs)))
@@ -1156,7 +1158,7 @@ func specInterrupts() bool {
 //@   props C01 C02 C12 C13 C14
 //@   requires specDefaultEntry() != nil && specFmtInv(specDefaultEntry()) && 0 <= specDefaultEntry().extraFrames && specDefaultEntry().extraFrames <= 1048576
 //@   assigns everything
-//@   keeps PrintCtx.off, PrintCtx.lvl
+//@   keeps PrintCtx.off, PrintCtx.lvl, PrintCtx.prefix, PrintCtx.inGroupedMode, PrintCtx.noQuoted, PrintCtx.dedupeAttrs
 //@   requires defaultWriter != nil && ghost.trN >= 0
 //@   requires [INV-dw] forall(k, 0, len(specDest(specDefaultEntry(), AlwaysLevel)), !isnil(specDest(specDefaultEntry(), AlwaysLevel)[k]) && !typeis(specDest(specDefaultEntry(), AlwaysLevel)[k], LWs) && implies(typeis(specDest(specDefaultEntry(), AlwaysLevel)[k], *logwr), dyn(specDest(specDefaultEntry(), AlwaysLevel)[k], *logwr) != nil && !typeis(dyn(specDest(specDefaultEntry(), AlwaysLevel)[k], *logwr).Writer, *logwr) && !typeis(dyn(specDest(specDefaultEntry(), AlwaysLevel)[k], *logwr).Writer, LWs)))
 //@   requires [INV-dw.warn] forall(k, 0, len(specDest(specDefaultEntry(), WarnLevel)), !isnil(specDest(specDefaultEntry(), WarnLevel)[k]) && !typeis(specDest(specDefaultEntry(), WarnLevel)[k], LWs) && implies(typeis(specDest(specDefaultEntry(), WarnLevel)[k], *logwr), dyn(specDest(specDefaultEntry(), WarnLevel)[k], *logwr) != nil && !typeis(dyn(specDest(specDefaultEntry(), WarnLevel)[k], *logwr).Writer, *logwr) && !typeis(dyn(specDest(specDefaultEntry(), WarnLevel)[k], *logwr).Writer, LWs)))
@@ -1177,7 +1179,7 @@ func specInterrupts() bool {
 //@   props C01 C02 C12 C13 C14
 //@   requires specDefaultEntry() != nil && specFmtInv(specDefaultEntry()) && 0 <= specDefaultEntry().extraFrames && specDefaultEntry().extraFrames <= 1048576
 //@   assigns everything
-//@   keeps PrintCtx.off, PrintCtx.lvl
+//@   keeps PrintCtx.off, PrintCtx.lvl, PrintCtx.prefix, PrintCtx.inGroupedMode, PrintCtx.noQuoted, PrintCtx.dedupeAttrs
 //@   requires defaultWriter != nil && ghost.trN >= 0
 //@   requires [INV-dw] forall(k, 0, len(specDest(specDefaultEntry(), OKLevel)), !isnil(specDest(specDefaultEntry(), OKLevel)[k]) && !typeis(specDest(specDefaultEntry(), OKLevel)[k], LWs) && implies(typeis(specDest(specDefaultEntry(), OKLevel)[k], *logwr), dyn(specDest(specDefaultEntry(), OKLevel)[k], *logwr) != nil && !typeis(dyn(specDest(specDefaultEntry(), OKLevel)[k], *logwr).Writer, *logwr) && !typeis(dyn(specDest(specDefaultEntry(), OKLevel)[k], *logwr).Writer, LWs)))
 //@   requires [INV-dw.warn] forall(k, 0, len(specDest(specDefaultEntry(), WarnLevel)), !isnil(specDest(specDefaultEntry(), WarnLevel)[k]) && !typeis(specDest(specDefaultEntry(), WarnLevel)[k], LWs) && implies(typeis(specDest(specDefaultEntry(), WarnLevel)[k], *logwr), dyn(specDest(specDefaultEntry(), WarnLevel)[k], *logwr) != nil && !typeis(dyn(specDest(specDefaultEntry(), WarnLevel)[k], *logwr).Writer, *logwr) && !typeis(dyn(specDest(specDefaultEntry(), WarnLevel)[k], *logwr).Writer, LWs)))
@@ -1198,7 +1200,7 @@ func specInterrupts() bool {
 //@   props C01 C02 C12 C13 C14
 //@   requires specDefaultEntry() != nil && specFmtInv(specDefaultEntry()) && 0 <= specDefaultEntry().extraFrames && specDefaultEntry().extraFrames <= 1048576
 //@   assigns everything
-//@   keeps PrintCtx.off, PrintCtx.lvl
+//@   keeps PrintCtx.off, PrintCtx.lvl, PrintCtx.prefix, PrintCtx.inGroupedMode, PrintCtx.noQuoted, PrintCtx.dedupeAttrs
 //@   requires defaultWriter != nil && ghost.trN >= 0
 //@   requires [INV-dw] forall(k, 0, len(specDest(specDefaultEntry(), SuccessLevel)), !isnil(specDest(specDefaultEntry(), SuccessLevel)[k]) && !typeis(specDest(specDefaultEntry(), SuccessLevel)[k], LWs) && implies(typeis(specDest(specDefaultEntry(), SuccessLevel)[k], *logwr), dyn(specDest(specDefaultEntry(), SuccessLevel)[k], *logwr) != nil && !typeis(dyn(specDest(specDefaultEntry(), SuccessLevel)[k], *logwr).Writer, *logwr) && !typeis(dyn(specDest(specDefaultEntry(), SuccessLevel)[k], *logwr).Writer, LWs)))
 //@   requires [INV-dw.warn] forall(k, 0, len(specDest(specDefaultEntry(), WarnLevel)), !isnil(specDest(specDefaultEntry(), WarnLevel)[k]) && !typeis(specDest(specDefaultEntry(), WarnLevel)[k], LWs) && implies(typeis(specDest(specDefaultEntry(), WarnLevel)[k], *logwr), dyn(specDest(specDefaultEntry(), WarnLevel)[k], *logwr) != nil && !typeis(dyn(specDest(specDefaultEntry(), WarnLevel)[k], *logwr).Writer, *logwr) && !typeis(dyn(specDest(specDefaultEntry(), WarnLevel)[k], *logwr).Writer, LWs)))
@@ -1219,7 +1221,7 @@ func specInterrupts() bool {
 //@   props C01 C02 C12 C13 C14
 //@   requires specDefaultEntry() != nil && specFmtInv(specDefaultEntry()) && 0 <= specDefaultEntry().extraFrames && specDefaultEntry().extraFrames <= 1048576
 //@   assigns everything
-//@   keeps PrintCtx.off, PrintCtx.lvl
+//@   keeps PrintCtx.off, PrintCtx.lvl, PrintCtx.prefix, PrintCtx.inGroupedMode, PrintCtx.noQuoted, PrintCtx.dedupeAttrs
 //@   requires defaultWriter != nil && ghost.trN >= 0
 //@   requires [INV-dw] forall(k, 0, len(specDest(specDefaultEntry(), FailLevel)), !isnil(specDest(specDefaultEntry(), FailLevel)[k]) && !typeis(specDest(specDefaultEntry(), FailLevel)[k], LWs) && implies(typeis(specDest(specDefaultEntry(), FailLevel)[k], *logwr), dyn(specDest(specDefaultEntry(), FailLevel)[k], *logwr) != nil && !typeis(dyn(specDest(specDefaultEntry(), FailLevel)[k], *logwr).Writer, *logwr) && !typeis(dyn(specDest(specDefaultEntry(), FailLevel)[k], *logwr).Writer, LWs)))
 //@   requires [INV-dw.warn] forall(k, 0, len(specDest(specDefaultEntry(), WarnLevel)), !isnil(specDest(specDefaultEntry(), WarnLevel)[k]) && !typeis(specDest(specDefaultEntry(), WarnLevel)[k], LWs) && implies(typeis(specDest(specDefaultEntry(), WarnLevel)[k], *logwr), dyn(specDest(specDefaultEntry(), WarnLevel)[k], *logwr) != nil && !typeis(dyn(specDest(specDefaultEntry(), WarnLevel)[k], *logwr).Writer, *logwr) && !typeis(dyn(specDest(specDefaultEntry(), WarnLevel)[k], *logwr).Writer, LWs)))
@@ -1240,7 +1242,7 @@ func specInterrupts() bool {
 //@   props C01 C02 C12 C13 C14
 //@   requires specDefaultEntry() != nil && specFmtInv(specDefaultEntry()) && 0 <= specDefaultEntry().extraFrames && specDefaultEntry().extraFrames <= 1048576
 //@   assigns everything
-//@   keeps PrintCtx.off, PrintCtx.lvl
+//@   keeps PrintCtx.off, PrintCtx.lvl, PrintCtx.prefix, PrintCtx.inGroupedMode, PrintCtx.noQuoted, PrintCtx.dedupeAttrs
 //@   requires defaultWriter != nil && ghost.trN >= 0
 //@   requires [INV-dw] forall(k, 0, len(specDest(specDefaultEntry(), AlwaysLevel)), !isnil(specDest(specDefaultEntry(), AlwaysLevel)[k]) && !typeis(specDest(specDefaultEntry(), AlwaysLevel)[k], LWs) && implies(typeis(specDest(specDefaultEntry(), AlwaysLevel)[k], *logwr), dyn(specDest(specDefaultEntry(), AlwaysLevel)[k], *logwr) != nil && !typeis(dyn(specDest(specDefaultEntry(), AlwaysLevel)[k], *logwr).Writer, *logwr) && !typeis(dyn(specDest(specDefaultEntry(), AlwaysLevel)[k], *logwr).Writer, LWs)))
 //@   requires [INV-dw.warn] forall(k, 0, len(specDest(specDefaultEntry(), WarnLevel)), !isnil(specDest(specDefaultEntry(), WarnLevel)[k]) && !typeis(specDest(specDefaultEntry(), WarnLevel)[k], LWs) && implies(typeis(specDest(specDefaultEntry(), WarnLevel)[k], *logwr), dyn(specDest(specDefaultEntry(), WarnLevel)[k], *logwr) != nil && !typeis(dyn(specDest(specDefaultEntry(), WarnLevel)[k], *logwr).Writer, *logwr) && !typeis(dyn(specDest(specDefaultEntry(), WarnLevel)[k], *logwr).Writer, LWs)))
@@ -1261,7 +1263,7 @@ func specInterrupts() bool {
 //@   props C01 C02 C12 C13 C14
 //@   requires specDefaultEntry() != nil && specFmtInv(specDefaultEntry()) && 0 <= specDefaultEntry().extraFrames && specDefaultEntry().extraFrames <= 1048576
 //@   assigns everything
-//@   keeps PrintCtx.off, PrintCtx.lvl
+//@   keeps PrintCtx.off, PrintCtx.lvl, PrintCtx.prefix, PrintCtx.inGroupedMode, PrintCtx.noQuoted, PrintCtx.dedupeAttrs
 //@   panics [C12.panic] when specAdmits(specDefaultEntry().level, PanicLevel) && specInterrupts() && isnil(specDefaultEntry().handlerOpt)
 //@   requires defaultWriter != nil && ghost.trN >= 0
 //@   requires [INV-dw] forall(k, 0, len(specDest(specDefaultEntry(), PanicLevel)), !isnil(specDest(specDefaultEntry(), PanicLevel)[k]) && !typeis(specDest(specDefaultEntry(), PanicLevel)[k], LWs) && implies(typeis(specDest(specDefaultEntry(), PanicLevel)[k], *logwr), dyn(specDest(specDefaultEntry(), PanicLevel)[k], *logwr) != nil && !typeis(dyn(specDest(specDefaultEntry(), PanicLevel)[k], *logwr).Writer, *logwr) && !typeis(dyn(specDest(specDefaultEntry(), PanicLevel)[k], *logwr).Writer, LWs)))
@@ -1283,7 +1285,7 @@ func specInterrupts() bool {
 //@   props C01 C02 C12 C13 C14
 //@   requires specDefaultEntry() != nil && specFmtInv(specDefaultEntry()) && 0 <= specDefaultEntry().extraFrames && specDefaultEntry().extraFrames <= 1048576
 //@   assigns everything
-//@   keeps PrintCtx.off, PrintCtx.lvl
+//@   keeps PrintCtx.off, PrintCtx.lvl, PrintCtx.prefix, PrintCtx.inGroupedMode, PrintCtx.noQuoted, PrintCtx.dedupeAttrs
 //@   exits [C12.exit] when specAdmits(specDefaultEntry().level, FatalLevel) && specInterrupts() && isnil(specDefaultEntry().handlerOpt)
 //@   requires defaultWriter != nil && ghost.trN >= 0
 //@   requires [INV-dw] forall(k, 0, len(specDest(specDefaultEntry(), FatalLevel)), !isnil(specDest(specDefaultEntry(), FatalLevel)[k]) && !typeis(specDest(specDefaultEntry(), FatalLevel)[k], LWs) && implies(typeis(specDest(specDefaultEntry(), FatalLevel)[k], *logwr), dyn(specDest(specDefaultEntry(), FatalLevel)[k], *logwr) != nil && !typeis(dyn(specDest(specDefaultEntry(), FatalLevel)[k], *logwr).Writer, *logwr) && !typeis(dyn(specDest(specDefaultEntry(), FatalLevel)[k], *logwr).Writer, LWs)))
@@ -1305,7 +1307,7 @@ func specInterrupts() bool {
 //@   props C01 C02 C12 C13 C14
 //@   requires specDefaultEntry() != nil && specFmtInv(specDefaultEntry()) && 0 <= specDefaultEntry().extraFrames && specDefaultEntry().extraFrames <= 1048576
 //@   assigns everything
-//@   keeps PrintCtx.off, PrintCtx.lvl
+//@   keeps PrintCtx.off, PrintCtx.lvl, PrintCtx.prefix, PrintCtx.inGroupedMode, PrintCtx.noQuoted, PrintCtx.dedupeAttrs
 //@   requires defaultWriter != nil && ghost.trN >= 0
 //@   requires [INV-dw] forall(k, 0, len(specDest(specDefaultEntry(), ErrorLevel)), !isnil(specDest(specDefaultEntry(), ErrorLevel)[k]) && !typeis(specDest(specDefaultEntry(), ErrorLevel)[k], LWs) && implies(typeis(specDest(specDefaultEntry(), ErrorLevel)[k], *logwr), dyn(specDest(specDefaultEntry(), ErrorLevel)[k], *logwr) != nil && !typeis(dyn(specDest(specDefaultEntry(), ErrorLevel)[k], *logwr).Writer, *logwr) && !typeis(dyn(specDest(specDefaultEntry(), ErrorLevel)[k], *logwr).Writer, LWs)))
 //@   requires [INV-dw.warn] forall(k, 0, len(specDest(specDefaultEntry(), WarnLevel)), !isnil(specDest(specDefaultEntry(), WarnLevel)[k]) && !typeis(specDest(specDefaultEntry(), WarnLevel)[k], LWs) && implies(typeis(specDest(specDefaultEntry(), WarnLevel)[k], *logwr), dyn(specDest(specDefaultEntry(), WarnLevel)[k], *logwr) != nil && !typeis(dyn(specDest(specDefaultEntry(), WarnLevel)[k], *logwr).Writer, *logwr) && !typeis(dyn(specDest(specDefaultEntry(), WarnLevel)[k], *logwr).Writer, LWs)))
@@ -1326,7 +1328,7 @@ func specInterrupts() bool {
 //@   props C01 C02 C12 C13 C14
 //@   requires specDefaultEntry() != nil && specFmtInv(specDefaultEntry()) && 0 <= specDefaultEntry().extraFrames && specDefaultEntry().extraFrames <= 1048576
 //@   assigns everything
-//@   keeps PrintCtx.off, PrintCtx.lvl
+//@   keeps PrintCtx.off, PrintCtx.lvl, PrintCtx.prefix, PrintCtx.inGroupedMode, PrintCtx.noQuoted, PrintCtx.dedupeAttrs
 //@   requires defaultWriter != nil && ghost.trN >= 0
 //@   requires [INV-dw] forall(k, 0, len(specDest(specDefaultEntry(), WarnLevel)), !isnil(specDest(specDefaultEntry(), WarnLevel)[k]) && !typeis(specDest(specDefaultEntry(), WarnLevel)[k], LWs) && implies(typeis(specDest(specDefaultEntry(), WarnLevel)[k], *logwr), dyn(specDest(specDefaultEntry(), WarnLevel)[k], *logwr) != nil && !typeis(dyn(specDest(specDefaultEntry(), WarnLevel)[k], *logwr).Writer, *logwr) && !typeis(dyn(specDest(specDefaultEntry(), WarnLevel)[k], *logwr).Writer, LWs)))
 //@   requires [INV-dw.warn] forall(k, 0, len(specDest(specDefaultEntry(), WarnLevel)), !isnil(specDest(specDefaultEntry(), WarnLevel)[k]) && !typeis(specDest(specDefaultEntry(), WarnLevel)[k], LWs) && implies(typeis(specDest(specDefaultEntry(), WarnLevel)[k], *logwr), dyn(specDest(specDefaultEntry(), WarnLevel)[k], *logwr) != nil && !typeis(dyn(specDest(specDefaultEntry(), WarnLevel)[k], *logwr).Writer, *logwr) && !typeis(dyn(specDest(specDefaultEntry(), WarnLevel)[k], *logwr).Writer, LWs)))
@@ -1347,7 +1349,7 @@ func specInterrupts() bool {
 //@   props C01 C02 C12 C13 C14
 //@   requires specDefaultEntry() != nil && specFmtInv(specDefaultEntry()) && 0 <= specDefaultEntry().extraFrames && specDefaultEntry().extraFrames <= 1048576
 //@   assigns everything
-//@   keeps PrintCtx.off, PrintCtx.lvl
+//@   keeps PrintCtx.off, PrintCtx.lvl, PrintCtx.prefix, PrintCtx.inGroupedMode, PrintCtx.noQuoted, PrintCtx.dedupeAttrs
 //@   requires defaultWriter != nil && ghost.trN >= 0
 //@   requires [INV-dw] forall(k, 0, len(specDest(specDefaultEntry(), InfoLevel)), !isnil(specDest(specDefaultEntry(), InfoLevel)[k]) && !typeis(specDest(specDefaultEntry(), InfoLevel)[k], LWs) && implies(typeis(specDest(specDefaultEntry(), InfoLevel)[k], *logwr), dyn(specDest(specDefaultEntry(), InfoLevel)[k], *logwr) != nil && !typeis(dyn(specDest(specDefaultEntry(), InfoLevel)[k], *logwr).Writer, *logwr) && !typeis(dyn(specDest(specDefaultEntry(), InfoLevel)[k], *logwr).Writer, LWs)))
 //@   requires [INV-dw.warn] forall(k, 0, len(specDest(specDefaultEntry(), WarnLevel)), !isnil(specDest(specDefaultEntry(), WarnLevel)[k]) && !typeis(specDest(specDefaultEntry(), WarnLevel)[k], LWs) && implies(typeis(specDest(specDefaultEntry(), WarnLevel)[k], *logwr), dyn(specDest(specDefaultEntry(), WarnLevel)[k], *logwr) != nil && !typeis(dyn(specDest(specDefaultEntry(), WarnLevel)[k], *logwr).Writer, *logwr) && !typeis(dyn(specDest(specDefaultEntry(), WarnLevel)[k], *logwr).Writer, LWs)))
@@ -1368,7 +1370,7 @@ func specInterrupts() bool {
 //@   props C01 C02 C12 C13 C14
 //@   requires specDefaultEntry() != nil && specFmtInv(specDefaultEntry()) && 0 <= specDefaultEntry().extraFrames && specDefaultEntry().extraFrames <= 1048576
 //@   assigns everything
-//@   keeps PrintCtx.off, PrintCtx.lvl
+//@   keeps PrintCtx.off, PrintCtx.lvl, PrintCtx.prefix, PrintCtx.inGroupedMode, PrintCtx.noQuoted, PrintCtx.dedupeAttrs
 //@   requires defaultWriter != nil && ghost.trN >= 0
 //@   requires [INV-dw] forall(k, 0, len(specDest(specDefaultEntry(), DebugLevel)), !isnil(specDest(specDefaultEntry(), DebugLevel)[k]) && !typeis(specDest(specDefaultEntry(), DebugLevel)[k], LWs) && implies(typeis(specDest(specDefaultEntry(), DebugLevel)[k], *logwr), dyn(specDest(specDefaultEntry(), DebugLevel)[k], *logwr) != nil && !typeis(dyn(specDest(specDefaultEntry(), DebugLevel)[k], *logwr).Writer, *logwr) && !typeis(dyn(specDest(specDefaultEntry(), DebugLevel)[k], *logwr).Writer, LWs)))
 //@   requires [INV-dw.warn] forall(k, 0, len(specDest(specDefaultEntry(), WarnLevel)), !isnil(specDest(specDefaultEntry(), WarnLevel)[k]) && !typeis(specDest(specDefaultEntry(), WarnLevel)[k], LWs) && implies(typeis(specDest(specDefaultEntry(), WarnLevel)[k], *logwr), dyn(specDest(specDefaultEntry(), WarnLevel)[k], *logwr) != nil && !typeis(dyn(specDest(specDefaultEntry(), WarnLevel)[k], *logwr).Writer, *logwr) && !typeis(dyn(specDest(specDefaultEntry(), WarnLevel)[k], *logwr).Writer, LWs)))
@@ -1389,7 +1391,7 @@ func specInterrupts() bool {
 //@   props C01 C02 C12 C13 C14
 //@   requires specDefaultEntry() != nil && specFmtInv(specDefaultEntry()) && 0 <= specDefaultEntry().extraFrames && specDefaultEntry().extraFrames <= 1048576
 //@   assigns everything
-//@   keeps PrintCtx.off, PrintCtx.lvl
+//@   keeps PrintCtx.off, PrintCtx.lvl, PrintCtx.prefix, PrintCtx.inGroupedMode, PrintCtx.noQuoted, PrintCtx.dedupeAttrs
 //@   requires defaultWriter != nil && ghost.trN >= 0
 //@   requires [INV-dw] forall(k, 0, len(specDest(specDefaultEntry(), TraceLevel)), !isnil(specDest(specDefaultEntry(), TraceLevel)[k]) && !typeis(specDest(specDefaultEntry(), TraceLevel)[k], LWs) && implies(typeis(specDest(specDefaultEntry(), TraceLevel)[k], *logwr), dyn(specDest(specDefaultEntry(), TraceLevel)[k], *logwr) != nil && !typeis(dyn(specDest(specDefaultEntry(), TraceLevel)[k], *logwr).Writer, *logwr) && !typeis(dyn(specDest(specDefaultEntry(), TraceLevel)[k], *logwr).Writer, LWs)))
 //@   requires [INV-dw.warn] forall(k, 0, len(specDest(specDefaultEntry(), WarnLevel)), !isnil(specDest(specDefaultEntry(), WarnLevel)[k]) && !typeis(specDest(specDefaultEntry(), WarnLevel)[k], LWs) && implies(typeis(specDest(specDefaultEntry(), WarnLevel)[k], *logwr), dyn(specDest(specDefaultEntry(), WarnLevel)[k], *logwr) != nil && !typeis(dyn(specDest(specDefaultEntry(), WarnLevel)[k], *logwr).Writer, *logwr) && !typeis(dyn(specDest(specDefaultEntry(), WarnLevel)[k], *logwr).Writer, LWs)))
@@ -1410,7 +1412,7 @@ func specInterrupts() bool {
 //@   props C01 C02 C12 C13 C14
 //@   requires specDefaultEntry() != nil && specFmtInv(specDefaultEntry()) && 0 <= specDefaultEntry().extraFrames && specDefaultEntry().extraFrames <= 1048576
 //@   assigns everything
-//@   keeps PrintCtx.off, PrintCtx.lvl
+//@   keeps PrintCtx.off, PrintCtx.lvl, PrintCtx.prefix, PrintCtx.inGroupedMode, PrintCtx.noQuoted, PrintCtx.dedupeAttrs
 //@   requires defaultWriter != nil && ghost.trN >= 0
 //@   requires [INV-dw] forall(k, 0, len(specDest(specDefaultEntry(), AlwaysLevel)), !isnil(specDest(specDefaultEntry(), AlwaysLevel)[k]) && !typeis(specDest(specDefaultEntry(), AlwaysLevel)[k], LWs) && implies(typeis(specDest(specDefaultEntry(), AlwaysLevel)[k], *logwr), dyn(specDest(specDefaultEntry(), AlwaysLevel)[k], *logwr) != nil && !typeis(dyn(specDest(specDefaultEntry(), AlwaysLevel)[k], *logwr).Writer, *logwr) && !typeis(dyn(specDest(specDefaultEntry(), AlwaysLevel)[k], *logwr).Writer, LWs)))
 //@   requires [INV-dw.warn] forall(k, 0, len(specDest(specDefaultEntry(), WarnLevel)), !isnil(specDest(specDefaultEntry(), WarnLevel)[k]) && !typeis(specDest(specDefaultEntry(), WarnLevel)[k], LWs) && implies(typeis(specDest(specDefaultEntry(), WarnLevel)[k], *logwr), dyn(specDest(specDefaultEntry(), WarnLevel)[k], *logwr) != nil && !typeis(dyn(specDest(specDefaultEntry(), WarnLevel)[k], *logwr).Writer, *logwr) && !typeis(dyn(specDest(specDefaultEntry(), WarnLevel)[k], *logwr).Writer, LWs)))
@@ -1431,7 +1433,7 @@ func specInterrupts() bool {
 //@   props C01 C02 C12 C13 C14
 //@   requires specDefaultEntry() != nil && specFmtInv(specDefaultEntry()) && 0 <= specDefaultEntry().extraFrames && specDefaultEntry().extraFrames <= 1048576
 //@   assigns everything
-//@   keeps PrintCtx.off, PrintCtx.lvl
+//@   keeps PrintCtx.off, PrintCtx.lvl, PrintCtx.prefix, PrintCtx.inGroupedMode, PrintCtx.noQuoted, PrintCtx.dedupeAttrs
 //@   requires defaultWriter != nil && ghost.trN >= 0
 //@   requires [INV-dw] forall(k, 0, len(specDest(specDefaultEntry(), OKLevel)), !isnil(specDest(specDefaultEntry(), OKLevel)[k]) && !typeis(specDest(specDefaultEntry(), OKLevel)[k], LWs) && implies(typeis(specDest(specDefaultEntry(), OKLevel)[k], *logwr), dyn(specDest(specDefaultEntry(), OKLevel)[k], *logwr) != nil && !typeis(dyn(specDest(specDefaultEntry(), OKLevel)[k], *logwr).Writer, *logwr) && !typeis(dyn(specDest(specDefaultEntry(), OKLevel)[k], *logwr).Writer, LWs)))
 //@   requires [INV-dw.warn] forall(k, 0, len(specDest(specDefaultEntry(), WarnLevel)), !isnil(specDest(specDefaultEntry(), WarnLevel)[k]) && !typeis(specDest(specDefaultEntry(), WarnLevel)[k], LWs) && implies(typeis(specDest(specDefaultEntry(), WarnLevel)[k], *logwr), dyn(specDest(specDefaultEntry(), WarnLevel)[k], *logwr) != nil && !typeis(dyn(specDest(specDefaultEntry(), WarnLevel)[k], *logwr).Writer, *logwr) && !typeis(dyn(specDest(specDefaultEntry(), WarnLevel)[k], *logwr).Writer, LWs)))
@@ -1452,7 +1454,7 @@ func specInterrupts() bool {
 //@   props C01 C02 C12 C13 C14
 //@   requires specDefaultEntry() != nil && specFmtInv(specDefaultEntry()) && 0 <= specDefaultEntry().extraFrames && specDefaultEntry().extraFrames <= 1048576
 //@   assigns everything
-//@   keeps PrintCtx.off, PrintCtx.lvl
+//@   keeps PrintCtx.off, PrintCtx.lvl, PrintCtx.prefix, PrintCtx.inGroupedMode, PrintCtx.noQuoted, PrintCtx.dedupeAttrs
 //@   requires defaultWriter != nil && ghost.trN >= 0
 //@   requires [INV-dw] forall(k, 0, len(specDest(specDefaultEntry(), SuccessLevel)), !isnil(specDest(specDefaultEntry(), SuccessLevel)[k]) && !typeis(specDest(specDefaultEntry(), SuccessLevel)[k], LWs) && implies(typeis(specDest(specDefaultEntry(), SuccessLevel)[k], *logwr), dyn(specDest(specDefaultEntry(), SuccessLevel)[k], *logwr) != nil && !typeis(dyn(specDest(specDefaultEntry(), SuccessLevel)[k], *logwr).Writer, *logwr) && !typeis(dyn(specDest(specDefaultEntry(), SuccessLevel)[k], *logwr).Writer, LWs)))
 //@   requires [INV-dw.warn] forall(k, 0, len(specDest(specDefaultEntry(), WarnLevel)), !isnil(specDest(specDefaultEntry(), WarnLevel)[k]) && !typeis(specDest(specDefaultEntry(), WarnLevel)[k], LWs) && implies(typeis(specDest(specDefaultEntry(), WarnLevel)[k], *logwr), dyn(specDest(specDefaultEntry(), WarnLevel)[k], *logwr) != nil && !typeis(dyn(specDest(specDefaultEntry(), WarnLevel)[k], *logwr).Writer, *logwr) && !typeis(dyn(specDest(specDefaultEntry(), WarnLevel)[k], *logwr).Writer, LWs)))
@@ -1473,7 +1475,7 @@ func specInterrupts() bool {
 //@   props C01 C02 C12 C13 C14
 //@   requires specDefaultEntry() != nil && specFmtInv(specDefaultEntry()) && 0 <= specDefaultEntry().extraFrames && specDefaultEntry().extraFrames <= 1048576
 //@   assigns everything
-//@   keeps PrintCtx.off, PrintCtx.lvl
+//@   keeps PrintCtx.off, PrintCtx.lvl, PrintCtx.prefix, PrintCtx.inGroupedMode, PrintCtx.noQuoted, PrintCtx.dedupeAttrs
 //@   requires defaultWriter != nil && ghost.trN >= 0
 //@   requires [INV-dw] forall(k, 0, len(specDest(specDefaultEntry(), FailLevel)), !isnil(specDest(specDefaultEntry(), FailLevel)[k]) && !typeis(specDest(specDefaultEntry(), FailLevel)[k], LWs) && implies(typeis(specDest(specDefaultEntry(), FailLevel)[k], *logwr), dyn(specDest(specDefaultEntry(), FailLevel)[k], *logwr) != nil && !typeis(dyn(specDest(specDefaultEntry(), FailLevel)[k], *logwr).Writer, *logwr) && !typeis(dyn(specDest(specDefaultEntry(), FailLevel)[k], *logwr).Writer, LWs)))
 //@   requires [INV-dw.warn] forall(k, 0, len(specDest(specDefaultEntry(), WarnLevel)), !isnil(specDest(specDefaultEntry(), WarnLevel)[k]) && !typeis(specDest(specDefaultEntry(), WarnLevel)[k], LWs) && implies(typeis(specDest(specDefaultEntry(), WarnLevel)[k], *logwr), dyn(specDest(specDefaultEntry(), WarnLevel)[k], *logwr) != nil && !typeis(dyn(specDest(specDefaultEntry(), WarnLevel)[k], *logwr).Writer, *logwr) && !typeis(dyn(specDest(specDefaultEntry(), WarnLevel)[k], *logwr).Writer, LWs)))
@@ -1494,7 +1496,7 @@ func specInterrupts() bool {
 //@   props C01 C02 C12 C13 C14
 //@   requires specDefaultEntry() != nil && specFmtInv(specDefaultEntry()) && 0 <= specDefaultEntry().extraFrames && specDefaultEntry().extraFrames <= 1048576
 //@   assigns everything
-//@   keeps PrintCtx.off, PrintCtx.lvl
+//@   keeps PrintCtx.off, PrintCtx.lvl, PrintCtx.prefix, PrintCtx.inGroupedMode, PrintCtx.noQuoted, PrintCtx.dedupeAttrs
 //@   requires defaultWriter != nil && ghost.trN >= 0
 //@   requires [INV-dw] forall(k, 0, len(specDest(specDefaultEntry(), AlwaysLevel)), !isnil(specDest(specDefaultEntry(), AlwaysLevel)[k]) && !typeis(specDest(specDefaultEntry(), AlwaysLevel)[k], LWs) && implies(typeis(specDest(specDefaultEntry(), AlwaysLevel)[k], *logwr), dyn(specDest(specDefaultEntry(), AlwaysLevel)[k], *logwr) != nil && !typeis(dyn(specDest(specDefaultEntry(), AlwaysLevel)[k], *logwr).Writer, *logwr) && !typeis(dyn(specDest(specDefaultEntry(), AlwaysLevel)[k], *logwr).Writer, LWs)))
 //@   requires [INV-dw.warn] forall(k, 0, len(specDest(specDefaultEntry(), WarnLevel)), !isnil(specDest(specDefaultEntry(), WarnLevel)[k]) && !typeis(specDest(specDefaultEntry(), WarnLevel)[k], LWs) && implies(typeis(specDest(specDefaultEntry(), WarnLevel)[k], *logwr), dyn(specDest(specDefaultEntry(), WarnLevel)[k], *logwr) != nil && !typeis(dyn(specDest(specDefaultEntry(), WarnLevel)[k], *logwr).Writer, *logwr) && !typeis(dyn(specDest(specDefaultEntry(), WarnLevel)[k], *logwr).Writer, LWs)))
@@ -1515,7 +1517,7 @@ func specInterrupts() bool {
 //@   props C01 C02 C12 C13 C14
 //@   requires specDefaultEntry() != nil && specFmtInv(specDefaultEntry()) && 0 <= specDefaultEntry().extraFrames && specDefaultEntry().extraFrames <= 1048576
 //@   assigns everything
-//@   keeps PrintCtx.off, PrintCtx.lvl
+//@   keeps PrintCtx.off, PrintCtx.lvl, PrintCtx.prefix, PrintCtx.inGroupedMode, PrintCtx.noQuoted, PrintCtx.dedupeAttrs
 //@   panics [C12.panic] when lvl == PanicLevel && specAdmits(specDefaultEntry().level, lvl) && specInterrupts() && isnil(specDefaultEntry().handlerOpt)
 //@   exits [C12.exit] when lvl == FatalLevel && specAdmits(specDefaultEntry().level, lvl) && specInterrupts() && isnil(specDefaultEntry().handlerOpt)
 //@   requires defaultWriter != nil && ghost.trN >= 0
@@ -1539,7 +1541,7 @@ func specInterrupts() bool {
 //@   requires specDefaultEntry() != nil && specFmtInv(specDefaultEntry()) && 0 <= specDefaultEntry().extraFrames && specDefaultEntry().extraFrames <= 1048576
 //@   requires [C14.inc] inc == fd - 1 && 0 <= inc && inc <= 16
 //@   assigns everything
-//@   keeps PrintCtx.off, PrintCtx.lvl
+//@   keeps PrintCtx.off, PrintCtx.lvl, PrintCtx.prefix, PrintCtx.inGroupedMode, PrintCtx.noQuoted, PrintCtx.dedupeAttrs
 //@   panics [C12.panic] when lvl == PanicLevel && specAdmits(specDefaultEntry().level, lvl) && specInterrupts() && isnil(specDefaultEntry().handlerOpt)
 //@   exits [C12.exit] when lvl == FatalLevel && specAdmits(specDefaultEntry().level, lvl) && specInterrupts() && isnil(specDefaultEntry().handlerOpt)
 //@   requires defaultWriter != nil && ghost.trN >= 0
@@ -1627,7 +1629,9 @@ func specLastBool(b []bool, def bool) bool {
 //@ func (*PrintCtx).setentry
 //@   props C11 C16
 //@   requires s != nil && e != nil && specFmtInv(e)
-//@   assigns s.buf, s.jsonMode, s.noColor, s.layout, s.utcTime, s.valueStringer, s.lvl, s.kvps
+//@   assigns s.buf, s.jsonMode, s.noColor, s.layout, s.utcTime, s.valueStringer, s.lvl, s.kvps, s.clr, s.bg
+//@   ensures [C09.colors] s.clr == clrBasic && s.bg == clrNone
+//@   ensures [C09.buf] len(s.buf) == 0 && samearray(s.buf, old(s.buf))
 //@   ensures [C11.derive] s.jsonMode == (specFormat(e) == fmtJSON) && s.noColor == (specFormat(e) != fmtColor)
 //@   ensures [C16.copy] s.layout == e.timeLayout && s.utcTime == e.modeUTC
 //@   ensures len(s.buf) == 0
@@ -2210,7 +2214,7 @@ func specTellable(m LogWriter) bool {
 //@   requires [INV-dw] forall(k, 0, len(specDest(s, lvl)), !isnil(specDest(s, lvl)[k]) && !typeis(specDest(s, lvl)[k], LWs) && implies(typeis(specDest(s, lvl)[k], *logwr), dyn(specDest(s, lvl)[k], *logwr) != nil && !typeis(dyn(specDest(s, lvl)[k], *logwr).Writer, *logwr) && !typeis(dyn(specDest(s, lvl)[k], *logwr).Writer, LWs)))
 //@   requires [INV-dw.warn] forall(k, 0, len(specDest(s, WarnLevel)), !isnil(specDest(s, WarnLevel)[k]) && !typeis(specDest(s, WarnLevel)[k], LWs) && implies(typeis(specDest(s, WarnLevel)[k], *logwr), dyn(specDest(s, WarnLevel)[k], *logwr) != nil && !typeis(dyn(specDest(s, WarnLevel)[k], *logwr).Writer, *logwr) && !typeis(dyn(specDest(s, WarnLevel)[k], *logwr).Writer, LWs)))
 //@   effect ghost.records = ghost.records + 1
-//@   keeps PrintCtx.off, PrintCtx.lvl
+//@   keeps PrintCtx.off, PrintCtx.lvl, PrintCtx.prefix, PrintCtx.inGroupedMode, PrintCtx.noQuoted, PrintCtx.dedupeAttrs
 //@   at call (*Entry).Warn effect ghost.warns = ghost.warns + 1
 //@   at call (*Entry).Warn assert [C13.nocascade] lvl != WarnLevel && callee.s == s
 //@   assigns everything
@@ -2224,13 +2228,18 @@ func specTellable(m LogWriter) bool {
 //@   ensures [C01.emits] ghost.emits >= old(ghost.emits)
 
 //@ func (*Entry).printImpl
-//@   props C02 C13
+//@   props C02 C09 C13
 //@   requires s != nil && defaultWriter != nil && isnil(s.handlerOpt) && ghost.trN >= 0 && specFmtInv(s) && 0 <= s.extraFrames && s.extraFrames <= 1048576 && pc != nil && pc.off == 0 && 0 <= len(pc.buf)
 //@   requires [INV-dw] forall(k, 0, len(specDest(s, pc.lvl)), !isnil(specDest(s, pc.lvl)[k]) && !typeis(specDest(s, pc.lvl)[k], LWs) && implies(typeis(specDest(s, pc.lvl)[k], *logwr), dyn(specDest(s, pc.lvl)[k], *logwr) != nil && !typeis(dyn(specDest(s, pc.lvl)[k], *logwr).Writer, *logwr) && !typeis(dyn(specDest(s, pc.lvl)[k], *logwr).Writer, LWs)))
 //@   requires [INV-dw.warn] forall(k, 0, len(specDest(s, WarnLevel)), !isnil(specDest(s, WarnLevel)[k]) && !typeis(specDest(s, WarnLevel)[k], LWs) && implies(typeis(specDest(s, WarnLevel)[k], *logwr), dyn(specDest(s, WarnLevel)[k], *logwr) != nil && !typeis(dyn(specDest(s, WarnLevel)[k], *logwr).Writer, *logwr) && !typeis(dyn(specDest(s, WarnLevel)[k], *logwr).Writer, LWs)))
 //@   assigns everything
-//@   keeps PrintCtx.off, PrintCtx.lvl
+//@   keeps PrintCtx.off, PrintCtx.lvl, PrintCtx.prefix, PrintCtx.inGroupedMode, PrintCtx.noQuoted, PrintCtx.dedupeAttrs
 //@   ensures [C09.pool] pc.off == 0 && pc.lvl == old(pc.lvl)
+//@   requires [C09.carry] pc.prefix == "" && !pc.inGroupedMode && pc.noQuoted && pc.dedupeAttrs
+//@   ensures [C09.carry] pc.prefix == "" && !pc.inGroupedMode && pc.noQuoted && pc.dedupeAttrs
+//@   effect ghost.split = 0
+//@   at call (*Entry).printFirstLineOfMsg effect ghost.split = 1
+//@   at call (*Entry).printRestLinesOfMsg assert [C09.defined] pc.noColor || ghost.split == 1
 //@   ensures [C02.deliver] ghost.trN >= old(ghost.trN) + old(len(specDest(s, pc.lvl)))
 //@   ensures [C02.appendonly] forall(k, 0, old(ghost.trN), ghost.trace[k] == old(ghost.trace[k]) && ghost.trTold[k] == old(ghost.trTold[k]))
 //@   ensures [C13.algebra] ghost.records - old(ghost.records) == 1 + ite(old(specAdmits(s.level, WarnLevel)), ghost.warns - old(ghost.warns), 0) && ghost.warns >= old(ghost.warns) && ghost.warns <= old(ghost.warns) + 1
@@ -2243,12 +2252,12 @@ func specTellable(m LogWriter) bool {
 //@   at call (*Entry).printOut assert [C02.blank] implies(old(pc.lvl) == AlwaysLevel && old(uf("trimsToEmpty", contentid(pc.msg))) == 1, len(callee.msg) == 1)
 
 //@ func (*Entry).print
-//@   props C02 C13
+//@   props C02 C09 C13
 //@   requires s != nil && defaultWriter != nil && isnil(s.handlerOpt) && ghost.trN >= 0 && specFmtInv(s) && 0 <= s.extraFrames && s.extraFrames <= 1048576
 //@   requires [INV-dw] forall(k, 0, len(specDest(s, lvl)), !isnil(specDest(s, lvl)[k]) && !typeis(specDest(s, lvl)[k], LWs) && implies(typeis(specDest(s, lvl)[k], *logwr), dyn(specDest(s, lvl)[k], *logwr) != nil && !typeis(dyn(specDest(s, lvl)[k], *logwr).Writer, *logwr) && !typeis(dyn(specDest(s, lvl)[k], *logwr).Writer, LWs)))
 //@   requires [INV-dw.warn] forall(k, 0, len(specDest(s, WarnLevel)), !isnil(specDest(s, WarnLevel)[k]) && !typeis(specDest(s, WarnLevel)[k], LWs) && implies(typeis(specDest(s, WarnLevel)[k], *logwr), dyn(specDest(s, WarnLevel)[k], *logwr) != nil && !typeis(dyn(specDest(s, WarnLevel)[k], *logwr).Writer, *logwr) && !typeis(dyn(specDest(s, WarnLevel)[k], *logwr).Writer, LWs)))
 //@   assigns everything
-//@   keeps PrintCtx.off, PrintCtx.lvl
+//@   keeps PrintCtx.off, PrintCtx.lvl, PrintCtx.prefix, PrintCtx.inGroupedMode, PrintCtx.noQuoted, PrintCtx.dedupeAttrs
 //@   ensures [C02.deliver] ghost.trN >= old(ghost.trN) + old(len(specDest(s, lvl)))
 //@   ensures [C02.appendonly] forall(k, 0, old(ghost.trN), ghost.trace[k] == old(ghost.trace[k]) && ghost.trTold[k] == old(ghost.trTold[k]))
 //@   ensures [C13.algebra] ghost.records - old(ghost.records) == 1 + ite(old(specAdmits(s.level, WarnLevel)), ghost.warns - old(ghost.warns), 0) && ghost.warns >= old(ghost.warns) && ghost.warns <= old(ghost.warns) + 1
@@ -2258,14 +2267,20 @@ func specTellable(m LogWriter) bool {
 //@   ensures [C01.emits] ghost.emits >= old(ghost.emits)
 //@   at call (*Entry).printImpl assert [C02.C14.once] callee.s == s && callee.pc.lvl == lvl && callee.pc.msg == msg && callee.pc.now == timestamp && callee.pc.kvps == kvps && callee.pc.stackFrame == stackFrame
 
+// what the pool's New function builds is what the pool invariant (externals: sync.Pool Get/Put) promises
+//@ func newPrintCtx
+//@   props C09
+//@   ensures [C09.new] result != nil && fresh(result) && result.off == 0 && len(result.buf) == 0 && result.prefix == "" && !result.inGroupedMode && result.noQuoted && result.dedupeAttrs && result.clr == clrBasic && result.bg == clrNone
+
 //@ func (*PrintCtx).set
 //@   props C02 C09 C11 C16
 //@   requires s != nil && e != nil && specFmtInv(e)
-//@   assigns s.buf, s.jsonMode, s.noColor, s.layout, s.utcTime, s.valueStringer, s.lvl, s.kvps, s.now, s.stackFrame, s.msg
+//@   assigns s.buf, s.jsonMode, s.noColor, s.layout, s.utcTime, s.valueStringer, s.lvl, s.kvps, s.now, s.stackFrame, s.msg, s.clr, s.bg
 //@   ensures [C09.C14.set] s.lvl == lvl && s.now == timestamp && s.stackFrame == stackFrame && s.msg == msg && s.kvps == kvps
 //@   ensures [C11.derive] s.jsonMode == (specFormat(e) == fmtJSON) && s.noColor == (specFormat(e) != fmtColor)
 //@   ensures [C16.copy] s.layout == e.timeLayout && s.utcTime == e.modeUTC
 //@   ensures [C09.buf] len(s.buf) == 0 && samearray(s.buf, old(s.buf))
+//@   ensures [C09.colors] s.clr == clrBasic && s.bg == clrNone
 
 //@ func (*PrintCtx).pcAppendByte
 //@   props C02
@@ -2324,16 +2339,30 @@ func specTellable(m LogWriter) bool {
 
 // in-package serializers reached through the ObjectSerializer interface (recursion with serializeAttrs)
 //@ func (*kvp).SerializeValueTo
-//@   props C02
+//@   props C02 C09
 //@   auto
+//@   nokeeps PrintCtx.prefix, PrintCtx.inGroupedMode
+//@   keeps PrintCtx.prefix except pc
+//@   keeps PrintCtx.inGroupedMode except pc
+//@   ensures [C09.ungrouped] !pc.inGroupedMode
 
 //@ func (*gkvp).SerializeValueTo
-//@   props C02
+//@   props C02 C09
 //@   auto
+//@   nokeeps PrintCtx.prefix, PrintCtx.inGroupedMode
+//@   keeps PrintCtx.prefix except pc
+//@   keeps PrintCtx.inGroupedMode except pc
+//@   requires [C09.ungrouped] !pc.inGroupedMode
+//@   ensures [C09.prefix] same(pc.prefix, old(pc.prefix)) && !pc.inGroupedMode
 
 //@ func (Attrs).SerializeValueTo
-//@   props C02
+//@   props C02 C09
 //@   auto
+//@   nokeeps PrintCtx.prefix, PrintCtx.inGroupedMode
+//@   keeps PrintCtx.prefix except pc
+//@   keeps PrintCtx.inGroupedMode except pc
+//@   requires [C09.ungrouped] !pc.inGroupedMode
+//@   ensures [C09.prefix] same(pc.prefix, old(pc.prefix)) && !pc.inGroupedMode
 
 //@ func (*Entry).fromCtx
 //@   props C02 C07
@@ -2401,16 +2430,27 @@ func specTellable(m LogWriter) bool {
 //@   auto
 
 //@ func serializeAttrs
-//@   props C02
+//@   props C02 C09
 //@   auto
+//@   nokeeps PrintCtx.prefix, PrintCtx.inGroupedMode
+//@   keeps PrintCtx.prefix except pc
+//@   keeps PrintCtx.inGroupedMode except pc
+//@   requires [C09.ungrouped] !pc.inGroupedMode
+//@   ensures [C09.prefix] same(pc.prefix, old(pc.prefix)) && !pc.inGroupedMode
+//@   loop 1 invariant [C09.restore] same(pc.prefix, prefix) && !pc.inGroupedMode && same(prefix, old(pc.prefix))
 
 //@ func (colorizeToolS).echoColorAndBg
 //@   props C02
 //@   auto
 
 //@ func (*PrintCtx).appendValue
-//@   props C02
+//@   props C02 C09
 //@   auto
+//@   nokeeps PrintCtx.prefix, PrintCtx.inGroupedMode
+//@   keeps PrintCtx.prefix except s
+//@   keeps PrintCtx.inGroupedMode except s
+//@   requires [C09.ungrouped] !s.inGroupedMode
+//@   ensures [C09.ungrouped] !s.inGroupedMode
 
 //@ func (*PrintCtx).appendTime
 //@   props C02
